@@ -6,18 +6,36 @@ What is generated (module `Frequenz.Extracted.BatteryStatus`, namespace `Extract
   `BatteryStatusTracker`, the critical `ErrorLevel`, the members of `ComponentStatusEnum`, the minimum blocking
   duration passed to `BlockingStatus`, the default `max_data_age` / `max_blocking_duration` of `BatteryManager`,
   the timer interval / missed-tick policy of the data timers;
-* a **state-passing translation** of the methods that make up the tracker's logic:
-  `BlockingStatus.{__post_init__, block, unblock, is_blocked}`, every `_handle_status_*`, `_is_*`, `_no_critical_error`,
-  `_get_current_status`, `_get_new_status_if_changed` of `BatteryStatusTracker`, the body of the `select` loop of
-  `BatteryStatusTracker._run` (one iteration = `Tracker.runIteration`), `ComponentPoolStatus.get_working_components`
-  and the body of the loop of `ComponentPoolStatusTracker._update_status` (`Pool.updateStatus`).
+* the *entry points* ("contract") of the tracker's logic, each as a **canonical decision tree**:
+  `BlockingStatus.{__post_init__, block, unblock, is_blocked}`, the five `_handle_status_*` and
+  `_get_new_status_if_changed` of `BatteryStatusTracker`, the body of the `select` loop of `BatteryStatusTracker._run`
+  (one iteration = `Tracker.runIteration`), `ComponentPoolStatus.get_working_components` and the body of the loop of
+  `ComponentPoolStatusTracker._update_status` (`Pool.updateStatus`).
 
-The translator handles a small subset of Python (see `MethodTr`): straight-line code, `if/elif/else`, `return`,
-`continue`, assignments to locals and to (nested) attributes of `self`, calls of other translated methods, a handful
-of recognised library idioms (`datetime.now(tz=…)` = the parameter `now`, `timedelta(seconds=c)`, `min`, `math.isnan`,
-`next((e for e in xs if p), None)`, `x in valid_set`, `set.intersection/add/discard`, `Timer.reset()`,
-`sender.send(...)`).  Logging statements (and `if`s that contain nothing else) and `assert`s are dropped.  Anything
-else raises `Unsupported`; the check then treats the proofs as broken and searches for a failing input.
+How: every entry point is **executed symbolically, path by path** (`Exec`), on a symbolic object state (one term per
+leaf field of the object, initially `s.<field>`).  Private helpers — methods of the same classes, static methods,
+module-level functions, properties — are inlined at their call sites (parameters bound positionally or by keyword,
+early returns, side effects in program order, object references kept as references); calls of *other entry points*
+stay calls (`Blocking.block s.blocking now`).  Every boolean the code looks at is an *atom* over the initial state and
+the parameters (a flag, `x == Enum.member`, `x is None`, an integer comparison, `x in table`, "some element of the
+list satisfies p"); each run of the interpreter follows one valuation of the atoms it meets.  The set of paths
+(valuation -> final state, returned value, value sent) is then rebuilt as the reduced decision tree over the atoms in
+one fixed global order, with integer (time) expressions in linear normal form and comparisons oriented canonically
+(`a - b > c`, `a > b + c`, `c + b < a`, `not a <= c + b` are one atom), emptiness tests of a set in one spelling, enum
+equalities treated as the exclusive alternatives they are (split in the order of the enum), and a field that ends
+with the value it is known to have had rendered as unchanged.  The Lean text therefore depends on what the code computes, not on how it is written:
+renamed locals/parameters/helpers, reordered independent statements, guard clauses vs nested ifs, `match` vs `elif`,
+ternaries, De Morgan, `next(...)`/`any(...)` vs search loops, extracted or inlined helpers, swapped comparison
+operands, keyword vs positional arguments all give the same text.
+
+Supported Python: straight-line code, `if/elif/else`, `match` on values, conditional expressions, `and/or/not`,
+`return`, `continue`, `break`, assignments (plain, annotated, augmented, walrus) to locals and to (nested) attributes
+of the object, search loops over a symbolic list, `next/any/all` over a generator, and a handful of recognised
+library idioms (`datetime.now(tz=…)` = the parameter `now`, `timedelta(seconds=c)`, `min`, `max`, `len`, `math.isnan`,
+`x in valid_set`, `set.intersection/add/discard`, `Timer.reset()`, `sender.send(...)`, `selected_from`).  Logging
+statements (and `if`s that contain nothing else, provided their tests have no side effect) and `assert`s are dropped.
+Anything else raises `Unsupported`; the check then treats the proofs as broken and searches for a failing input.
+A comparison of an `Optional` time is accepted only on paths that have established `is not None` before.
 
 Time is `Int` microseconds; `None`-able values are `Option`; sets of ids are duplicate-free `List Nat`.
 """
@@ -52,7 +70,7 @@ def enum_ctor(name: str) -> str:
 
 
 # --------------------------------------------------------------------------- schema
-# python attribute -> (lean field, type).  Types: Int Bool OptInt Status OptStatus Str OptStr ListStr SetNat Nat
+# python attribute -> (lean field, type).  Types: Int Bool OptInt Status OptStatus Str ListStr SetNat Nat
 # or the name of a structure.  "Timer" is the ghost field holding the loop time of the last `reset()`.
 STRUCTS: dict[str, dict[str, tuple[str, str]]] = {
     "Blocking": {
@@ -85,209 +103,55 @@ STRUCTS: dict[str, dict[str, tuple[str, str]]] = {
     "Pool": {"_current_status": ("currentStatus", "PoolStatus")},
     "CompStatus": {"component_id": ("componentId", "Nat"), "value": ("value", "Status")},
 }
-PY_CLASS_OF = {"BlockingStatus": "Blocking", "BatteryStatusTracker": "Tracker",
-               "ComponentPoolStatus": "PoolStatus", "ComponentPoolStatusTracker": "Pool"}
+OBJECT_STRUCTS = ("Blocking", "Stream", "Tracker", "PoolStatus", "Pool")  # mutable objects (held by reference)
+REF_TYPES = OBJECT_STRUCTS + ("SetNat", "Timer")
 LEAN_TYPE = {"Int": "Int", "Bool": "Bool", "OptInt": "Option Int", "Status": "Status", "OptStatus": "Option Status",
              "Str": "String", "OptStr": "Option String", "ListStr": "List String", "SetNat": "List Nat", "Nat": "Nat",
-             "Unit": "Unit", "OptPoolStatus": "Option PoolStatus", "PyStr": "String"}
+             "Unit": "Unit", "OptPoolStatus": "Option PoolStatus", "Timer": "Int"}
 PARAM_TYPES = {"BatteryData": "Msg", "InverterData": "Msg", "BatteryData | InverterData": "Msg", "ComponentData": "Msg",
-               "datetime": "Int", "SetPowerResult": "SpResult", "abc.Set[int]": "SetNat", "set[int]": "SetNat",
-               "_ComponentStreamStatus": "Stream", "str": "PyStr", "bool": "Bool", "timedelta": "Int"}
-RET_TYPES = {"None": "Unit", "bool": "Bool", "timedelta": "Int", "ComponentStatusEnum": "Status",
-             "ComponentStatusEnum | None": "OptStatus", "set[int]": "SetNat", "abc.Set[int]": "SetNat"}
+               "InverterData | BatteryData": "Msg", "datetime": "Int", "SetPowerResult": "SpResult",
+               "abc.Set[int]": "SetNat", "set[int]": "SetNat", "timedelta": "Int"}
+ENUMS = {"Status": ["Status.notWorking", "Status.uncertain", "Status.working"],
+         "Src": ["Src.battery", "Src.batteryTimer", "Src.inverter", "Src.inverterTimer", "Src.setPowerResult"]}
+PARAM_NAME = {"Msg": "msg", "SpResult": "result", "SetNat": "components", "Selected": "selected", "CompStatus": "status",
+              "Int": "t"}
+
+# The entry points: (struct, python name) -> lean name, parameter types, result type, may it change the object.
+CONTRACT: dict[tuple[str, str], dict] = {
+    ("Blocking", "__post_init__"): dict(lean="Blocking.postInit", params=[], ret="Unit", mut=True),
+    ("Blocking", "block"): dict(lean="Blocking.block", params=[], ret="Int", mut=True),
+    ("Blocking", "unblock"): dict(lean="Blocking.unblock", params=[], ret="Unit", mut=True),
+    ("Blocking", "is_blocked"): dict(lean="Blocking.isBlocked", params=[], ret="Bool", mut=False),
+    ("Tracker", "_handle_status_battery"): dict(lean="Tracker.handleStatusBattery", params=["Msg"], ret="Unit", mut=True),
+    ("Tracker", "_handle_status_inverter"): dict(lean="Tracker.handleStatusInverter", params=["Msg"], ret="Unit", mut=True),
+    ("Tracker", "_handle_status_set_power_result"): dict(lean="Tracker.handleStatusSetPowerResult", params=["SpResult"],
+                                                         ret="Unit", mut=True),
+    ("Tracker", "_handle_status_battery_timer"): dict(lean="Tracker.handleStatusBatteryTimer", params=[], ret="Unit", mut=True),
+    ("Tracker", "_handle_status_inverter_timer"): dict(lean="Tracker.handleStatusInverterTimer", params=[], ret="Unit",
+                                                       mut=True),
+    ("Tracker", "_get_new_status_if_changed"): dict(lean="Tracker.getNewStatusIfChanged", params=[], ret="OptStatus", mut=True),
+    ("PoolStatus", "get_working_components"): dict(lean="PoolStatus.getWorkingComponents", params=["SetNat"], ret="SetNat",
+                                                   mut=False),
+}
 
 
 def lean_ty(t: str) -> str:
     return LEAN_TYPE.get(t, t)
 
 
-def timedelta_us(node: ast.expr) -> int:
-    """`timedelta(seconds=c)` / `timedelta(milliseconds=c)` ... -> integer microseconds."""
-    if not (isinstance(node, ast.Call) and ast.unparse(node.func) in ("timedelta", "datetime.timedelta")):
-        raise Unsupported(f"expected timedelta(...), got {ast.unparse(node)}")
-    scale = {"days": 86400_000_000, "hours": 3600_000_000, "minutes": 60_000_000, "seconds": 1_000_000,
-             "milliseconds": 1000, "microseconds": 1}
-    total = 0.0
-    if node.args:
-        raise Unsupported("positional timedelta arguments")
-    for kw in node.keywords:
-        if kw.arg not in scale or not isinstance(kw.value, ast.Constant) or isinstance(kw.value.value, bool):
-            raise Unsupported(f"timedelta argument {ast.unparse(kw)}")
-        total += float(kw.value.value) * scale[kw.arg]
-    if total != int(total):
-        raise Unsupported("timedelta is not a whole number of microseconds")
-    return int(total)
+def leaf_paths(struct: str, prefix: tuple = ()) -> list[tuple[tuple, str]]:
+    """(python attribute path, type) of every leaf field below an object of type `struct`."""
+    out = []
+    for attr, (_, ty) in STRUCTS[struct].items():
+        if ty in OBJECT_STRUCTS:
+            out += leaf_paths(ty, prefix + (attr,))
+        else:
+            out.append((prefix + (attr,), ty))
+    return out
 
 
-def is_logging(stmt: ast.stmt) -> bool:
-    if isinstance(stmt, ast.Expr) and isinstance(stmt.value, ast.Call):
-        f = ast.unparse(stmt.value.func)
-        return f.startswith("_logger.") or f.startswith("logging.")
-    if isinstance(stmt, ast.Expr) and isinstance(stmt.value, ast.Constant):
-        return True  # docstring / bare constant
-    if isinstance(stmt, (ast.Assert, ast.Pass)):
-        return True
-    if isinstance(stmt, ast.If):
-        return all(is_logging(s) for s in stmt.body) and all(is_logging(s) for s in stmt.orelse)
-    return False
-
-
-class MethodInfo:
-    def __init__(self, cls: str, node: ast.FunctionDef | ast.AsyncFunctionDef):
-        self.cls = cls  # lean struct name
-        self.node = node
-        self.pyname = node.name
-        self.lean = f"{cls}.{camel(node.name)}"
-        self.static = any(ast.unparse(d) == "staticmethod" for d in node.decorator_list)
-        self.params: list[tuple[str, str]] = []
-        for a in (node.args.args if self.static else node.args.args[1:]):
-            ann = ast.unparse(a.annotation) if a.annotation is not None else ""
-            if ann not in PARAM_TYPES:
-                raise Unsupported(f"{node.name}: parameter {a.arg}: {ann!r}")
-            self.params.append((a.arg, PARAM_TYPES[ann]))
-        ret = ast.unparse(node.returns) if node.returns is not None else "None"
-        if ret not in RET_TYPES:
-            raise Unsupported(f"{node.name}: return type {ret!r}")
-        self.ret = RET_TYPES[ret]
-        self.mutating = False
-        self.body: list[ast.stmt] = list(node.body)
-        # does it change an object it received as a parameter?  Such helpers are inlined at their call sites.
-        pnames = {a for a, _ in self.params}
-        self.param_mut = False
-        for n in ast.walk(ast.Module(body=self.body, type_ignores=[])):
-            if isinstance(n, (ast.Assign, ast.AnnAssign, ast.AugAssign)):
-                targets = n.targets if isinstance(n, ast.Assign) else [n.target]
-                if any(isinstance(t, ast.Attribute) and root_name(t) in pnames for t in targets):
-                    self.param_mut = True
-            elif isinstance(n, ast.Call) and isinstance(n.func, ast.Attribute) and n.func.attr in ("reset", "add", "discard") \
-                    and root_name(n.func.value) in pnames:
-                self.param_mut = True
-
-    def result_type(self) -> str:
-        if not self.mutating:
-            return lean_ty(self.ret)
-        return self.cls if self.ret == "Unit" else f"{self.cls} × {lean_ty(self.ret)}"
-
-
-def root_name(node: ast.expr) -> str | None:
-    while isinstance(node, ast.Attribute):
-        node = node.value
-    return node.id if isinstance(node, ast.Name) else None
-
-
-class Registry:
-    def __init__(self) -> None:
-        self.methods: dict[tuple[str, str], MethodInfo] = {}
-        self.tables: dict[str, str] = {}  # python class attribute name -> lean def name (string lists)
-        self.class_nodes: dict[str, ast.ClassDef] = {}  # lean struct name -> python class
-        self.contract: set[tuple[str, str]] = set()  # entry points the lemmas are stated about
-
-    def add(self, cls: str, node: ast.FunctionDef | ast.AsyncFunctionDef, contract: bool = True) -> MethodInfo:
-        mi = MethodInfo(cls, node)
-        self.methods[(cls, node.name)] = mi
-        if contract:
-            self.contract.add((cls, node.name))
-        return mi
-
-    def get(self, cls: str, name: str) -> MethodInfo:
-        if (cls, name) not in self.methods:
-            raise Unsupported(f"call of untranslated method {cls}.{name}")
-        return self.methods[(cls, name)]
-
-    def helper_call(self, cls: str, n: ast.Call) -> tuple[str, str] | None:
-        """`self._m(...)`, `ClassName._m(...)` or `self.a.b.m(...)` -> (struct, method) if `m` is a method we know of."""
-        if not isinstance(n.func, ast.Attribute):
-            return None
-        recv, meth = n.func.value, n.func.attr
-        if isinstance(recv, ast.Name) and cls in self.class_nodes and recv.id == self.class_nodes[cls].name:
-            return (cls, meth)
-        p = self_path(recv)
-        if p is None:
-            return None
-        try:
-            ty = resolve_path_type(cls, p) if p else cls
-        except Unsupported:
-            return None
-        return (ty, meth)
-
-    def discover(self, cls: str, bodies: list[list[ast.stmt]]) -> None:
-        """Register (as non-contract helpers) the methods of the same classes that the given code calls, transitively."""
-        work = [(cls, b) for b in bodies]
-        while work:
-            c, body = work.pop()
-            for n in ast.walk(ast.Module(body=body, type_ignores=[])):
-                if not isinstance(n, ast.Call):
-                    continue
-                hc = self.helper_call(c, n)
-                if hc is None or hc in self.methods or hc[0] not in self.class_nodes:
-                    continue
-                node = next((m for m in self.class_nodes[hc[0]].body
-                             if isinstance(m, (ast.FunctionDef, ast.AsyncFunctionDef)) and m.name == hc[1]), None)
-                if node is None or isinstance(node, ast.AsyncFunctionDef):
-                    continue
-                mi = self.add(hc[0], node, contract=False)
-                work.append((hc[0], mi.body))
-
-    def callees(self, mi: MethodInfo) -> list[tuple[str, str]]:
-        out = []
-        for n in ast.walk(ast.Module(body=mi.body, type_ignores=[])):
-            if isinstance(n, ast.Call):
-                hc = self.helper_call(mi.cls, n)
-                if hc is not None and hc in self.methods and hc not in out and hc != (mi.cls, mi.pyname):
-                    out.append(hc)
-        return out
-
-
-def self_path(node: ast.expr) -> list[str] | None:
-    """`self.a.b` -> ['a', 'b'];  None if not rooted at `self`."""
-    names: list[str] = []
-    while isinstance(node, ast.Attribute):
-        names.append(node.attr)
-        node = node.value
-    if isinstance(node, ast.Name) and node.id == "self":
-        return list(reversed(names))
-    return None
-
-
-def compute_mutating(reg: Registry) -> None:
-    changed = True
-    while changed:
-        changed = False
-        for mi in reg.methods.values():
-            if mi.mutating:
-                continue
-            for n in ast.walk(ast.Module(body=mi.body, type_ignores=[])):
-                hit = False
-                if isinstance(n, (ast.Assign, ast.AnnAssign, ast.AugAssign)):
-                    targets = n.targets if isinstance(n, ast.Assign) else [n.target]
-                    hit = any(self_path(t) is not None for t in targets)
-                elif isinstance(n, ast.Call) and isinstance(n.func, ast.Attribute):
-                    p = self_path(n.func.value)
-                    hc = reg.helper_call(mi.cls, n)
-                    if hc is not None and hc in reg.methods and reg.methods[hc].param_mut \
-                            and any(self_path(a) is not None for a in n.args):
-                        hit = True
-                    elif hc is not None and hc in reg.methods and reg.methods[hc].mutating and hc[0] == mi.cls and not p:
-                        hit = True
-                    elif p is not None:
-                        meth = n.func.attr
-                        if meth in ("reset", "add", "discard"):
-                            hit = True
-                        else:
-                            try:
-                                ty = resolve_path_type(mi.cls, p)
-                            except Unsupported:
-                                ty = None
-                            if ty is not None and (ty, meth) in reg.methods and reg.methods[(ty, meth)].mutating:
-                                hit = True
-                if hit:
-                    mi.mutating = True
-                    changed = True
-                    break
-
-
-def resolve_path_type(cls: str, path: list[str]) -> str:
-    ty = cls
+def path_type(struct: str, path: tuple) -> str:
+    ty = struct
     for a in path:
         if ty not in STRUCTS or a not in STRUCTS[ty]:
             raise Unsupported(f"unknown attribute {a} of {ty}")
@@ -295,579 +159,1323 @@ def resolve_path_type(cls: str, path: list[str]) -> str:
     return ty
 
 
-def lean_path(cls: str, path: list[str]) -> list[str]:
-    out, ty = [], cls
-    for a in path:
-        if ty not in STRUCTS or a not in STRUCTS[ty]:
-            raise Unsupported(f"unknown attribute {a} of {ty}")
-        out.append(STRUCTS[ty][a][0])
-        ty = STRUCTS[ty][a][1]
-    return out
+def timedelta_us(node: ast.expr) -> int:
+    """`timedelta(seconds=c)` / `timedelta(milliseconds=c)` ... -> integer microseconds."""
+    if not (isinstance(node, ast.Call) and ast.unparse(node.func) in ("timedelta", "datetime.timedelta")):
+        raise Unsupported(f"expected timedelta(...), got {ast.unparse(node)}")
+    names = ["days", "seconds", "microseconds", "milliseconds", "minutes", "hours", "weeks"]
+    scale = {"weeks": 7 * 86400_000_000, "days": 86400_000_000, "hours": 3600_000_000, "minutes": 60_000_000,
+             "seconds": 1_000_000, "milliseconds": 1000, "microseconds": 1}
+    total = 0.0
+    items = list(zip(names, node.args)) + [(kw.arg, kw.value) for kw in node.keywords]
+    for name, v in items:
+        if isinstance(v, ast.UnaryOp) and isinstance(v.op, ast.USub) and isinstance(v.operand, ast.Constant):
+            v = ast.Constant(value=-v.operand.value)
+        if name not in scale or not isinstance(v, ast.Constant) or isinstance(v.value, bool) \
+                or not isinstance(v.value, (int, float)):
+            raise Unsupported(f"timedelta argument {name}={ast.unparse(v)}")
+        total += float(v.value) * scale[name]
+    if total != int(total):
+        raise Unsupported("timedelta is not a whole number of microseconds")
+    return int(total)
 
 
-def set_path(path: list[str], value: str) -> str:
-    """Lean term for `s` with the (nested) field `path` replaced by `value`."""
-    def go(prefix: str, p: list[str]) -> str:
-        if len(p) == 1:
-            return f"{{ {prefix} with {p[0]} := {value} }}"
-        return f"{{ {prefix} with {p[0]} := {go(prefix + '.' + p[0], p[1:])} }}"
-    return go("s", path)
+def is_log_call(v: ast.expr) -> bool:
+    if isinstance(v, ast.Call):
+        f = ast.unparse(v.func)
+        return f.startswith("_logger.") or f.startswith("logging.")
+    return False
 
 
-class MethodTr:
-    """Translate one method (or loop body) to a Lean term in continuation-passing style."""
+# --------------------------------------------------------------------------- terms
+class T:
+    """A canonical Lean term.  `key` = its rendering; two terms are the same iff their keys are equal."""
+    __slots__ = ("op", "ty", "args", "key")
 
-    def __init__(self, reg: Registry, mi: MethodInfo, mode: str = "method", extra: dict | None = None):
-        self.reg = reg
-        self.mi = mi
-        self.cls = mi.cls
-        self.mode = mode  # "method" | "iteration" (select-loop body) | "poolloop"
-        self.extra = extra or {}
-        self.counter = 0
-        self.prefix = ""  # prepended to the Lean names of locals of an inlined helper
-        self.inl = 0
+    def __init__(self, op: str, ty: str, *args):
+        self.op, self.ty, self.args = op, ty, args
+        self.key = render(self, {})
+
+    def __repr__(self) -> str:
+        return f"<{self.key} : {self.ty}>"
+
+
+def atomic(t: T, bound: dict) -> str:
+    r = render(t, bound)
+    if r.startswith("(") or r.startswith("{") or r.startswith('"') or all(c.isalnum() or c in "._" for c in r):
+        return r
+    return f"({r})"
+
+
+def render(t: T, bound: dict) -> str:
+    if bound and t.op == "call" and t.key in bound:
+        return bound[t.key]
+    op, a = t.op, t.args
+    if op in ("var", "const"):
+        return a[0]
+    if op == "field":
+        return f"{atomic(a[0], bound)}.{a[1]}"
+    if op == "proj":
+        return f"{atomic(a[0], bound)}.{a[1]}"
+    if op == "some":
+        return f"(some {atomic(a[0], bound)})"
+    if op == "bin":
+        return f"({render(a[1], bound)} {a[0]} {render(a[2], bound)})"
+    if op == "lin":  # ((coeff, atom), …), constant — already in canonical order
+        out = None
+        for c, x in a[0]:
+            mag = atomic(x, bound) if abs(c) == 1 else f"(({abs(c)} : Int) * {atomic(x, bound)})"
+            if out is None:
+                out = mag if c > 0 else f"(-{mag})"
+            else:
+                out = f"({out} {'+' if c > 0 else '-'} {mag})"
+        if a[1] != 0 or out is None:
+            k = f"({abs(a[1])} : Int)" if out is not None else f"({a[1]} : Int)"
+            out = k if out is None else f"({out} {'+' if a[1] > 0 else '-'} {k})"
+        return out
+    if op == "fn":  # pure library function: pyMinInt, pyMaxInt, setInter, setAdd, setDiscard
+        return "(" + " ".join([a[0]] + [atomic(x, bound) for x in a[1:]]) + ")"
+    if op == "len":
+        return f"({atomic(a[0], bound)}.length : Int)"
+    if op == "call":  # entry point: name, receiver, args…
+        return "(" + " ".join([a[0], atomic(a[1], bound), "now"] + [atomic(x, bound) for x in a[2:]]) + ")"
+    if op == "rec":  # struct, base | None, ((field, term), …)
+        fields = ", ".join(f"{f} := {render(v, bound)}" for f, v in a[2])
+        if a[1] is None:
+            return "{ " + fields + " }"
+        return "{ " + render(a[1], bound) + " with " + fields + " }"
+    if op == "find":  # list, predicate over the bound element `e`
+        return f"({atomic(a[0], bound)}.find? (fun e => {render(a[1], bound)}))"
+    if op == "get":
+        return f"({atomic(a[0], bound)}.get!)"
+    # ---- booleans
+    if op == "cmp":  # lt | le | eq on Int;  eq on enums / strings
+        x, y = render(a[1], bound), render(a[2], bound)
+        if a[0] == "eq":
+            return f"({x} == {y})" if a[1].ty != "Int" else f"decide ({x} = {y})"
+        return f"decide ({x} {'<' if a[0] == 'lt' else '≤'} {y})"
+    if op == "optcmp":  # gt | ge : Option Int vs Int
+        return f"(optCmp (fun a b => decide (a {'>' if a[0] == 'gt' else '≥'} b)) {atomic(a[1], bound)} {atomic(a[2], bound)})"
+    if op == "isSome":
+        return f"{atomic(a[0], bound)}.isSome"
+    if op == "nonempty":
+        return f"decide (({atomic(a[0], bound)}.length : Int) > (0 : Int))"
+    if op == "contains":
+        return f"({a[0]}.contains {atomic(a[1], bound)})"
+    if op == "not":
+        return f"(!{atomic(a[0], bound)})"
+    if op in ("and", "or"):
+        return "(" + (" && " if op == "and" else " || ").join(render(x, bound) for x in a) + ")"
+    raise Unsupported(f"term {op}")
+
+
+def const(code: str, ty: str) -> T:
+    return T("const", ty, code)
+
+
+def int_const(v: int) -> T:
+    return const(f"({v} : Int)", "Int")
+
+
+TRUE, FALSE, NONE = const("true", "Bool"), const("false", "Bool"), const("none", "None")
+
+
+def is_const(t) -> bool:
+    return isinstance(t, T) and t.op == "const"
+
+
+def mk_field(base: T, leanfield: str, ty: str) -> T:
+    if base.op == "rec":
+        for f, v in base.args[2]:
+            if f == leanfield:
+                return v
+        if base.args[1] is not None:
+            return mk_field(base.args[1], leanfield, ty)
+    return T("field", ty, base, leanfield)
+
+
+def subterms(t: T):
+    """Post-order walk."""
+    for a in t.args:
+        if isinstance(a, T):
+            yield from subterms(a)
+        elif isinstance(a, tuple):
+            for x in a:
+                if isinstance(x, tuple) and len(x) == 2 and isinstance(x[1], T):
+                    yield from subterms(x[1])
+                elif isinstance(x, T):
+                    yield from subterms(x)
+    yield t
+
+
+def int_value(t: T) -> int | None:
+    if t.op == "const" and t.ty == "Int":
+        return int(t.args[0].strip("()").split(":")[0])
+    return None
+
+
+def lin_parts(t: T) -> tuple[dict, int]:
+    """Integer term as  sum coeff*atom + const  (atoms by key)."""
+    v = int_value(t)
+    if v is not None:
+        return {}, v
+    if t.op == "lin":
+        return {x.key: (c, x) for c, x in t.args[0]}, t.args[1]
+    return {t.key: (1, t)}, 0
+
+
+def mk_lin(parts: dict, k: int) -> T:
+    items = [(c, x) for c, x in parts.values() if c != 0]
+    if not items:
+        return int_const(k)
+    items.sort(key=lambda cx: (cx[0] < 0, cx[1].key))
+    if len(items) == 1 and items[0][0] == 1 and k == 0:
+        return items[0][1]
+    return T("lin", "Int", tuple(items), k)
+
+
+def mk_arith(op: str, a: T, b: T) -> T:
+    """`a op b` on integers in canonical (linear) form: `a + b`, `b + a`, `a - (-b)`, `2 * a`, `a * 2`, `a + a` coincide."""
+    (pa, ka), (pb, kb) = lin_parts(a), lin_parts(b)
+    if op in ("+", "-"):
+        sgn = 1 if op == "+" else -1
+        out = dict(pa)
+        for key, (c, x) in pb.items():
+            out[key] = (out.get(key, (0, x))[0] + sgn * c, x)
+        return mk_lin(out, ka + sgn * kb)
+    if op == "*":
+        if not pa:
+            return mk_lin({k: (c * ka, x) for k, (c, x) in pb.items()}, ka * kb)
+        if not pb:
+            return mk_lin({k: (c * kb, x) for k, (c, x) in pa.items()}, ka * kb)
+        x, y = sorted([a, b], key=operand_key)
+        return T("bin", "Int", "*", x, y)
+    raise Unsupported(f"operator {op}")
+
+
+def depth(t: T) -> int:
+    return sum(1 for x in subterms(t) if x.op == "call")
+
+
+def operand_key(t: T):
+    return (1 if is_const(t) else 0, t.key)
+
+
+def atom_rank(t: T):
+    """The fixed global order of the atoms in the decision trees."""
+    op = t.op
+    if op == "cmp" and t.args[0] == "eq" and t.args[1].ty == "Src":
+        r = 0
+    elif op in ("field", "var", "proj"):
+        r = 1
+    elif op == "cmp" and t.args[0] == "eq" and t.args[1].ty in ENUMS:
+        r = 2
+    elif op == "isSome":
+        r = 3
+    elif op in ("contains", "nonempty"):
+        r = 4
+    elif op == "cmp":
+        r = 5
+    elif op == "optcmp":
+        r = 6
+    else:
+        r = 7
+    return (depth(t), r, t.key)
+
+
+def mk_int_cmp(op: str, a: T, b: T) -> tuple[T, bool]:
+    """Canonical atom and polarity of `a op b` on integers (op: lt le gt ge eq ne)."""
+    # emptiness tests of a set in whatever spelling
+    for x, y, o in ((a, b, op), (b, a, {"lt": "gt", "gt": "lt", "le": "ge", "ge": "le"}.get(op, op))):
+        if x.op == "len" and is_const(y):
+            k = int(y.args[0].strip("()").split(":")[0])
+            f = {"lt": lambda n: n < k, "le": lambda n: n <= k, "gt": lambda n: n > k, "ge": lambda n: n >= k,
+                 "eq": lambda n: n == k, "ne": lambda n: n != k}[o]
+            vals = [f(n) for n in range(0, max(k, 0) + 3)]
+            if (not vals[0]) and all(vals[1:]):
+                return T("nonempty", "Bool", x.args[0]), True
+            if vals[0] and not any(vals[1:]):
+                return T("nonempty", "Bool", x.args[0]), False
+    # linear form  L = a - b  (op) 0, sign fixed by its first atom, negative terms moved to the right-hand side:
+    # `a - b > c`, `a > b + c`, `not (a <= c + b)`, `c + b < a` are one atom
+    (pa, ka), (pb, kb) = lin_parts(a), lin_parts(b)
+    parts = dict(pa)
+    for key, (c, x) in pb.items():
+        parts[key] = (parts.get(key, (0, x))[0] - c, x)
+    k = ka - kb
+    items = sorted([(c, x) for c, x in parts.values() if c != 0], key=lambda cx: cx[1].key)
+    if not items:
+        v = {"lt": k < 0, "le": k <= 0, "gt": k > 0, "ge": k >= 0, "eq": k == 0, "ne": k != 0}[op]
+        return (TRUE if v else FALSE), True
+    if items[0][0] < 0:
+        items, k = [(-c, x) for c, x in items], -k
+        op = {"lt": "gt", "gt": "lt", "le": "ge", "ge": "le"}.get(op, op)
+    lhs = mk_lin({x.key: (c, x) for c, x in items if c > 0}, k if k > 0 else 0)
+    rhs = mk_lin({x.key: (-c, x) for c, x in items if c < 0}, -k if k < 0 else 0)
+    if op in ("eq", "ne"):
+        return T("cmp", "Bool", "eq", lhs, rhs), op == "eq"
+    if op == "lt":
+        return T("cmp", "Bool", "lt", lhs, rhs), True
+    if op == "le":
+        return T("cmp", "Bool", "le", lhs, rhs), True
+    if op == "gt":
+        return T("cmp", "Bool", "le", lhs, rhs), False
+    return T("cmp", "Bool", "lt", lhs, rhs), False
+
+
+def mk_opt_cmp(op: str, o: T, n: T) -> tuple[T, bool]:
+    """`o op n` with `o : Option Int` known to be `some`."""
+    if op == "gt":
+        return T("optcmp", "Bool", "gt", o, n), True
+    if op == "ge":
+        return T("optcmp", "Bool", "ge", o, n), True
+    if op == "lt":
+        return T("optcmp", "Bool", "ge", o, n), False
+    if op == "le":
+        return T("optcmp", "Bool", "gt", o, n), False
+    raise Unsupported(f"comparison {op} on an optional time")
+
+
+def theory_eval(atom: T, known: dict) -> bool | None:
+    """Truth value of `atom` given the decided atoms (`known`: key -> bool), or None."""
+    if atom.key in known:
+        return known[atom.key]
+    if atom.op == "cmp" and atom.args[0] == "eq" and atom.args[1].ty in ENUMS and is_const(atom.args[2]) \
+            and not is_const(atom.args[1]):
+        x, c = atom.args[1], atom.args[2]
+        others = [T("cmp", "Bool", "eq", x, const(k, x.ty)).key for k in ENUMS[x.ty] if k != c.args[0]]
+        if any(known.get(k) is True for k in others):
+            return False
+        if all(known.get(k) is False for k in others):
+            return True
+    if atom.op == "cmp" and atom.args[0] in ("lt", "le"):
+        other = T("cmp", "Bool", "le" if atom.args[0] == "lt" else "lt", atom.args[1], atom.args[2]).key
+        if atom.args[0] == "le" and known.get(other) is True:  # a < b  =>  a <= b
+            return True
+        if atom.args[0] == "lt" and known.get(other) is False:  # not a <= b  =>  not a < b
+            return False
+    return None
+
+
+# --------------------------------------------------------------------------- values of the interpreter
+class Ref:
+    """Reference to a mutable object inside the symbolic state: python attribute path from the root object."""
+
+    def __init__(self, path: tuple, ty: str):
+        self.path, self.ty = tuple(path), ty
+
+    def __repr__(self) -> str:
+        return f"Ref({'.'.join(self.path)} : {self.ty})"
+
+
+class Special:
+    def __init__(self, kind: str, payload=None, extra=None):
+        self.kind, self.payload, self.extra = kind, payload, extra
+
+    def __repr__(self) -> str:
+        return f"Special({self.kind}, {self.payload})"
+
+
+BATTERY_ID, INVERTER_ID = Special("battery_id"), Special("inverter_id")
+
+
+class _Return(Exception):
+    def __init__(self, value):
+        self.value = value
+
+
+class _Continue(Exception):
+    pass
+
+
+class _Break(Exception):
+    pass
+
+
+PURE_BUILTINS = {"str", "len", "isinstance", "repr", "int", "float", "bool", "type", "math.isnan", "datetime.now",
+                 "datetime.datetime.now", "timedelta", "datetime.timedelta", "min", "max", "abs", "next", "any", "all"}
+PURE_METHODS = {"isoformat", "total_seconds", "intersection", "union", "difference", "issubset", "get", "keys", "values",
+                "items", "format", "join"}
+IMPURE_METHODS = {"reset", "add", "discard", "append", "pop", "clear", "update", "send", "remove", "extend", "insert",
+                  "setdefault", "popitem", "close", "stop", "start", "cancel", "put", "put_nowait", "set"}
+
+
+class Ctx:
+    """The parsed sources: classes by structure name, module-level functions, tables."""
+
+    def __init__(self) -> None:
+        self.classes: dict[str, ast.ClassDef] = {}
+        self.modfuncs: dict[str, dict[str, ast.FunctionDef]] = {}  # struct -> functions of its module
+        self.tables: dict[str, str] = {}
+        self.cs_fields: list[str] = ["component_id", "value"]
+        self._pure: dict[int, bool] = {}
+
+    def method(self, struct: str, name: str):
+        cls = self.classes.get(struct)
+        if cls is None:
+            return None
+        for m in cls.body:
+            if isinstance(m, (ast.FunctionDef, ast.AsyncFunctionDef)) and m.name == name:
+                return m
+        return None
+
+    def struct_of_class(self, pyname: str) -> str | None:
+        for st, c in self.classes.items():
+            if c.name == pyname:
+                return st
+        return None
+
+    # ---- syntactic purity (only used to decide whether a logging-only `if` may be dropped unevaluated)
+    def func_is_pure(self, fn) -> bool:
+        if id(fn) in self._pure:
+            return self._pure[id(fn)]
+        self._pure[id(fn)] = True  # recursion: assume pure while looking
+        ok = True
+        for n in ast.walk(fn):
+            if isinstance(n, (ast.Assign, ast.AnnAssign, ast.AugAssign, ast.Delete)):
+                tg = n.targets if isinstance(n, (ast.Assign, ast.Delete)) else [n.target]
+                if any(not isinstance(t, ast.Name) for t in tg):
+                    ok = False
+            elif isinstance(n, (ast.Await, ast.Yield, ast.YieldFrom, ast.Global, ast.Nonlocal)):
+                ok = False
+            elif isinstance(n, ast.Call) and not is_log_call(n) and not self.call_is_pure(n):
+                ok = False
+        self._pure[id(fn)] = ok
+        return ok
+
+    def call_is_pure(self, n: ast.Call) -> bool:
+        f = ast.unparse(n.func)
+        if f in PURE_BUILTINS:
+            return True
+        if isinstance(n.func, ast.Name):
+            cands = [fs[n.func.id] for fs in self.modfuncs.values() if n.func.id in fs]
+            return bool(cands) and all(self.func_is_pure(c) for c in cands)
+        if isinstance(n.func, ast.Attribute):
+            meth = n.func.attr
+            if meth in IMPURE_METHODS:
+                return False
+            cands = [m for st in self.classes for m in [self.method(st, meth)] if m is not None]
+            if cands:
+                return all(self.func_is_pure(c) for c in cands)
+            return meth in PURE_METHODS
+        return False
+
+    def expr_is_pure(self, e: ast.expr) -> bool:
+        for n in ast.walk(e):
+            if isinstance(n, (ast.NamedExpr, ast.Await, ast.Yield, ast.YieldFrom)):
+                return False
+            if isinstance(n, ast.Call) and not self.call_is_pure(n):
+                return False
+        return True
+
+    def is_logging(self, stmt: ast.stmt) -> bool:
+        if isinstance(stmt, ast.Expr) and is_log_call(stmt.value):
+            return True
+        if isinstance(stmt, ast.Expr) and isinstance(stmt.value, ast.Constant):
+            return True  # docstring / bare constant
+        if isinstance(stmt, (ast.Assert, ast.Pass)):
+            return True
+        if isinstance(stmt, ast.AnnAssign) and stmt.value is None:
+            return True  # bare declaration `x: T`
+        if isinstance(stmt, ast.If):
+            return all(self.is_logging(s) for s in stmt.body) and all(self.is_logging(s) for s in stmt.orelse) \
+                and self.expr_is_pure(stmt.test)
+        return False
+
+
+class Exec:
+    """One run of the symbolic interpreter along one valuation of the atoms (`script` = the decisions to replay)."""
+
+    def __init__(self, ctx: Ctx, root: str, script: list[bool], mode: str = "method"):
+        self.ctx, self.root, self.mode = ctx, root, mode
+        self.svar = T("var", root, "s")
+        self.state: dict[tuple, T] = {}
+        for p, ty in leaf_paths(root):
+            self.state[p] = self.init_term(p)
+        self.known: dict[str, bool] = {}
+        self.decisions: list[tuple[T, bool]] = []
+        self.script, self.pos = script, 0
+        self.sent: T | None = None
+        self.sent_watch: tuple | None = None
+        self.pure = False
+        self.struct_stack: list[str] = [root]
+        self.depth = 0
+        self.awaiting = 0
+
+    # ------------------------------------------------------------------ state
+    def init_term(self, path: tuple) -> T:
+        t, ty = self.svar, self.root
+        for a in path:
+            f, fty = STRUCTS[ty][a]
+            t = T("field", fty, t, f)
+            ty = fty
+        return t
+
+    def fold(self, path: tuple, ty: str) -> T:
+        """The object at `path` as one Lean term (a base term, a `{ base with … }` update or a structure literal)."""
+        if ty not in OBJECT_STRUCTS:
+            return self.state[path]
+        children = []
+        for attr, (f, fty) in STRUCTS[ty].items():
+            children.append((f, self.fold(path + (attr,), fty)))
+        bases: dict[str, list] = {}
+        for f, c in children:
+            if c.op == "field" and c.args[1] == f:
+                bases.setdefault(c.args[0].key, [c.args[0], 0])[1] += 1
+        if not bases:
+            return T("rec", ty, ty, None, tuple(children))
+        best = sorted(bases.values(), key=lambda bc: (-bc[1], bc[0].key))[0][0]
+        rest = tuple((f, c) for f, c in children if not (c.op == "field" and c.args[1] == f and c.args[0].key == best.key))
+        if not rest:
+            return best
+        return T("rec", ty, ty, best, rest)
+
+    def assign_object(self, path: tuple, ty: str, term: T) -> None:
+        for attr, (f, fty) in STRUCTS[ty].items():
+            sub = mk_field(term, f, fty)
+            if fty in OBJECT_STRUCTS:
+                self.assign_object(path + (attr,), fty, sub)
+            else:
+                self.state[path + (attr,)] = sub
+
+    # ------------------------------------------------------------------ decisions
+    def decide(self, atom: T) -> bool:
+        if is_const(atom):
+            return atom.key == "true"
+        if atom.op == "not":
+            return not self.decide(atom.args[0])
+        v = theory_eval(atom, self.known)
+        if v is not None:
+            return v
+        if self.pos < len(self.script):
+            v = self.script[self.pos]
+        else:
+            v = True
+            self.script.append(True)
+        self.pos += 1
+        self.known[atom.key] = v
+        self.decisions.append((atom, v))
+        return v
+
+    def res(self, atom: T, pol: bool):
+        if self.pure:
+            return atom if pol else T("not", "Bool", atom)
+        return self.decide(atom) == pol
+
+    def truth(self, v, node: ast.AST) -> bool:
+        if isinstance(v, bool):
+            return v
+        if isinstance(v, T) and v.ty == "Bool":
+            if self.pure:
+                raise Unsupported(f"branching inside a predicate: {ast.unparse(node)}")
+            return self.decide(v)
+        if v is None:
+            return False
+        if isinstance(v, T) and v.ty in ("OptInt", "OptStatus", "OptStr") and not self.pure:
+            # datetimes, enum members and error objects are truthy: `if x` == `if x is not None`
+            return self.decide(T("isSome", "Bool", v))
+        if isinstance(v, T) and v.ty in ("Status", "ErrElem"):
+            return True
+        if isinstance(v, Ref) and v.ty == "SetNat":
+            return self.res(T("nonempty", "Bool", self.state[v.path]), True)
+        if isinstance(v, T) and v.ty == "SetNat":
+            return self.res(T("nonempty", "Bool", v), True)
+        raise Unsupported(f"truth value of {ast.unparse(node)}")
 
     # ------------------------------------------------------------------ expressions
-    def expr(self, n: ast.expr, env: dict[str, tuple[str, str]]) -> tuple[str, str]:
+    def ev(self, n: ast.expr, env: dict):
+        v = self._ev(n, env)
+        if isinstance(v, T) and v.ty == "Bool" and not self.pure:
+            return self.decide(v)
+        return v
+
+    def as_int(self, v, node) -> T:
+        if isinstance(v, T) and v.ty == "Int":
+            return v
+        raise Unsupported(f"expected a time/duration: {ast.unparse(node)}")
+
+    def _ev(self, n: ast.expr, env: dict):
         if isinstance(n, ast.Constant):
-            if n.value is True:
-                return "true", "Bool"
-            if n.value is False:
-                return "false", "Bool"
-            if n.value is None:
-                return "none", "None"
+            if isinstance(n.value, bool) or n.value is None or isinstance(n.value, str):
+                return n.value
             if isinstance(n.value, int):
-                return f"({n.value} : Int)", "Int"
-            if isinstance(n.value, str):
-                return json.dumps(n.value), "PyStr"
+                return int_const(n.value)
+            if isinstance(n.value, float) and n.value == int(n.value):
+                return int_const(int(n.value))
             raise Unsupported(f"constant {n.value!r}")
         if isinstance(n, ast.Name):
             if n.id in env:
-                return env[n.id]
+                v = env[n.id]
+                if isinstance(v, Special) and v.kind == "unknown":
+                    raise Unsupported(f"use of {n.id} = {v.payload}")
+                return v
+            st = self.ctx.struct_of_class(n.id)
+            if st is not None:
+                return Special("class", st)
             raise Unsupported(f"unknown name {n.id}")
+        if isinstance(n, ast.NamedExpr):
+            v = self.ev(n.value, env)
+            env[n.target.id] = v
+            return v
         if isinstance(n, ast.Attribute):
-            src = ast.unparse(n)
-            if src.startswith("ComponentStatusEnum."):
-                return f"Status.{enum_ctor(n.attr)}", "Status"
-            if src.startswith("ErrorLevel."):
-                return f'"{n.attr}"', "Str"
-            p = self_path(n)
-            if p is not None:
-                if p[-1] == "_timedelta_zero":
-                    return "(0 : Int)", "Int"
-                return "s." + ".".join(lean_path(self.cls, p)), resolve_path_type(self.cls, p)
-            # attribute of a local (message, result, status, selected)
-            if isinstance(n.value, ast.Name) and n.value.id in env:
-                code, ty = env[n.value.id]
-                if ty == "Selected" and n.attr == "message":
-                    raise Unsupported("selected.message outside a handler call")
-                if ty == "ErrElem" and n.attr == "level":
-                    return code, "Str"
-                if ty in STRUCTS and n.attr in STRUCTS[ty]:
-                    f, fty = STRUCTS[ty][n.attr]
-                    return f"{code}.{f}", fty
-            raise Unsupported(f"attribute {src}")
+            return self.attribute(n, env)
         if isinstance(n, ast.UnaryOp) and isinstance(n.op, ast.Not):
-            c, t = self.expr(n.operand, env)
-            self.want(t, "Bool", n)
-            return f"(!{c})", "Bool"
+            if self.pure:
+                v = self._ev(n.operand, env)
+                if isinstance(v, bool):
+                    return not v
+                if isinstance(v, T) and v.ty == "Bool":
+                    return v.args[0] if v.op == "not" else T("not", "Bool", v)
+                raise Unsupported(f"not {ast.unparse(n.operand)}")
+            return not self.truth(self.ev(n.operand, env), n.operand)
         if isinstance(n, ast.UnaryOp) and isinstance(n.op, ast.USub):
-            c, t = self.expr(n.operand, env)
-            self.want(t, "Int", n)
-            return f"(-{c})", "Int"
+            v = self.as_int(self.ev(n.operand, env), n.operand)
+            return mk_arith("-", int_const(0), v)
         if isinstance(n, ast.BoolOp):
-            parts = []
-            for v in n.values:
-                c, t = self.expr(v, env)
-                self.want(t, "Bool", v)
-                parts.append(c)
-            op = " && " if isinstance(n.op, ast.And) else " || "
-            return "(" + op.join(parts) + ")", "Bool"
+            is_and = isinstance(n.op, ast.And)
+            if self.pure:
+                parts = []
+                for x in n.values:
+                    v = self._ev(x, env)
+                    if isinstance(v, bool):
+                        if v != is_and:
+                            return v
+                        continue
+                    if not (isinstance(v, T) and v.ty == "Bool"):
+                        raise Unsupported(f"operand {ast.unparse(x)}")
+                    parts.append(v)
+                if not parts:
+                    return is_and
+                return parts[0] if len(parts) == 1 else T("and" if is_and else "or", "Bool", *parts)
+            for x in n.values:
+                if self.truth(self.ev(x, env), x) != is_and:
+                    return not is_and
+            return is_and
         if isinstance(n, ast.BinOp):
-            a, ta = self.expr(n.left, env)
-            b, tb = self.expr(n.right, env)
-            self.want(ta, "Int", n.left)
-            self.want(tb, "Int", n.right)
+            a = self.as_int(self.ev(n.left, env), n.left)
+            b = self.as_int(self.ev(n.right, env), n.right)
             ops = {ast.Add: "+", ast.Sub: "-", ast.Mult: "*"}
             if type(n.op) not in ops:
                 raise Unsupported(f"operator in {ast.unparse(n)}")
-            return f"({a} {ops[type(n.op)]} {b})", "Int"
+            return mk_arith(ops[type(n.op)], a, b)
         if isinstance(n, ast.Compare):
-            if len(n.ops) != 1:
-                raise Unsupported("chained comparison")
-            return self.compare(n.left, n.ops[0], n.comparators[0], env)
+            left = self.ev(n.left, env)
+            result = True
+            for op, rn in zip(n.ops, n.comparators):
+                right = self.ev(rn, env)
+                r = self.compare(op, left, right, n)
+                if self.pure:
+                    if len(n.ops) != 1:
+                        raise Unsupported("chained comparison in a predicate")
+                    return r
+                if not r:
+                    return False
+                left = right
+            return result
+        if isinstance(n, ast.IfExp):
+            if self.pure:
+                raise Unsupported("conditional expression in a predicate")
+            return self.ev(n.body if self.truth(self.ev(n.test, env), n.test) else n.orelse, env)
         if isinstance(n, ast.Call):
             return self.call(n, env)
-        if isinstance(n, ast.IfExp):
-            c, tc = self.expr(n.test, env)
-            self.want(tc, "Bool", n.test)
-            a, ta = self.expr(n.body, env)
-            b, tb = self.expr(n.orelse, env)
-            if ta != tb:
-                if ta == "None" and tb.startswith("Opt"):
-                    ta = tb
-                elif tb == "None" and ta.startswith("Opt"):
-                    tb = ta
-                elif ta.startswith("Opt") and tb == ta[3:]:
-                    b, tb = f"(some {b})", ta
-                elif tb.startswith("Opt") and ta == tb[3:]:
-                    a, ta = f"(some {a})", tb
-                else:
-                    raise Unsupported(f"conditional expression of types {ta} / {tb}")
-            return f"(if {c} then {a} else {b})", ta
-        raise Unsupported(f"expression {ast.unparse(n)}")
+        if isinstance(n, ast.Await):
+            c = n.value
+            if isinstance(c, ast.Call) and isinstance(c.func, ast.Attribute) and c.func.attr == "send":
+                return self.send(c, env)
+            if isinstance(c, ast.Call) and not self.pure:
+                self.awaiting += 1
+                try:
+                    return self.call(c, env)
+                finally:
+                    self.awaiting -= 1
+            raise Unsupported(f"await {ast.unparse(c)[:60]}")
+        if isinstance(n, ast.Tuple) and not self.pure:
+            return tuple(self.ev(e, env) for e in n.elts)
+        raise Unsupported(f"expression {ast.unparse(n)[:80]}")
 
-    def want(self, got: str, want: str, node: ast.AST) -> None:
-        if got != want:
-            raise Unsupported(f"type {got}, expected {want}: {ast.unparse(node)}")
+    def attribute(self, n: ast.Attribute, env: dict):
+        src = ast.unparse(n)
+        if src.startswith("ComponentStatusEnum.") and src.count(".") == 1:
+            return const(f"Status.{enum_ctor(n.attr)}", "Status")
+        if src.startswith("ErrorLevel.") and src.count(".") == 1:
+            return const(json.dumps(n.attr), "Str")
+        if src in ("timezone.utc", "datetime.timezone.utc"):
+            return Special("utc")
+        base = self.ev(n.value, env)
+        a = n.attr
+        if a in self.ctx.tables and (isinstance(base, Ref) and base.ty == "Tracker"
+                                     or isinstance(base, Special) and base.kind == "class" and base.payload == "Tracker"):
+            return Special("table", self.ctx.tables[a])
+        if isinstance(base, Ref):
+            if a == "_timedelta_zero":
+                return int_const(0)
+            if base.ty in STRUCTS and a in STRUCTS[base.ty]:
+                fty = STRUCTS[base.ty][a][1]
+                if fty in REF_TYPES:
+                    return Ref(base.path + (a,), fty)
+                return self.state[base.path + (a,)]
+            if base.ty == "Stream" and a == "component_id":
+                if base.path[-1:] == ("_battery",):
+                    return BATTERY_ID
+                if base.path[-1:] == ("_inverter",):
+                    return INVERTER_ID
+            m = self.ctx.method(base.ty, a)
+            if m is not None and any(ast.unparse(d) == "property" for d in m.decorator_list):
+                return self.inline(m, base, [], {}, base.ty)
+            raise Unsupported(f"attribute {src}")
+        if isinstance(base, T):
+            if base.ty == "ErrElem" and a == "level":
+                return T(base.op, "Str", *base.args)
+            if base.ty == "Selected" and a == "message":
+                return Special("selmsg", base)
+            if base.ty == "Msg" and a == "capacity":
+                return Special("capacity", base)
+            if base.ty == "SpResult" and a in STRUCTS["SpResult"]:
+                return Special("idflag", T("field", "Bool", base, STRUCTS["SpResult"][a][0]))
+            if base.ty in STRUCTS and a in STRUCTS[base.ty]:
+                f, fty = STRUCTS[base.ty][a]
+                return mk_field(base, f, fty)
+        if isinstance(base, Special) and base.kind == "compstatus" and a in ("component_id", "value"):
+            return base.payload if a == "component_id" else base.extra
+        raise Unsupported(f"attribute {src}")
 
-    def compare(self, left: ast.expr, op: ast.cmpop, right: ast.expr, env) -> tuple[str, str]:
-        # membership tests
+    CMP = {ast.Gt: "gt", ast.Lt: "lt", ast.GtE: "ge", ast.LtE: "le", ast.Eq: "eq", ast.NotEq: "ne"}
+
+    def compare(self, op: ast.cmpop, l, r, node: ast.AST):
         if isinstance(op, (ast.In, ast.NotIn)):
-            rsrc = ast.unparse(right)
-            lsrc = ast.unparse(left)
-            if lsrc == "self.battery_id" and isinstance(right, ast.Attribute) and isinstance(right.value, ast.Name) \
-                    and right.value.id in env and env[right.value.id][1] == "SpResult":
-                code = f"{env[right.value.id][0]}.{STRUCTS['SpResult'][right.attr][0]}"
-            else:
-                tab = rsrc.split(".")[-1]
-                if not (rsrc in (f"BatteryStatusTracker.{tab}", f"self.{tab}", f"type(self).{tab}") and tab in self.reg.tables):
-                    raise Unsupported(f"membership in {rsrc}")
-                c, t = self.expr(left, env)
-                self.want(t, "Str", left)
-                code = f"({self.reg.tables[tab]}.contains {c})"
-            return (code if isinstance(op, ast.In) else f"(!{code})"), "Bool"
+            pol = isinstance(op, ast.In)
+            if l is BATTERY_ID and isinstance(r, Special) and r.kind == "idflag":
+                return self.res(r.payload, pol)
+            if isinstance(r, Special) and r.kind == "table" and isinstance(l, T) and l.ty == "Str":
+                return self.res(T("contains", "Bool", r.payload, l), pol)
+            raise Unsupported(f"membership test {ast.unparse(node)}")
         if isinstance(op, (ast.Is, ast.IsNot)):
-            if not (isinstance(right, ast.Constant) and right.value is None):
-                raise Unsupported("`is` with a non-None operand")
-            c, t = self.expr(left, env)
-            if not t.startswith("Opt"):
-                raise Unsupported(f"`is None` on non-optional {ast.unparse(left)} : {t}")
-            return (f"{c}.isNone" if isinstance(op, ast.Is) else f"{c}.isSome"), "Bool"
-        a, ta = self.expr(left, env)
-        b, tb = self.expr(right, env)
-        sym = {ast.Gt: ">", ast.Lt: "<", ast.GtE: "≥", ast.LtE: "≤", ast.Eq: "=", ast.NotEq: "≠"}
-        if type(op) not in sym:
+            pol = isinstance(op, ast.Is)
+            if isinstance(l, bool) and isinstance(r, bool):
+                return (l == r) == pol
+            if r is not None and l is None:
+                l, r = r, l
+            if r is not None:
+                raise Unsupported(f"`is` with a non-None operand: {ast.unparse(node)}")
+            if l is None or (isinstance(l, T) and l.ty == "None"):
+                return pol
+            if isinstance(l, T) and l.ty.startswith("Opt"):
+                return self.res(T("isSome", "Bool", l), not pol)
+            if isinstance(l, (T, Ref, bool, str)):
+                return not pol
+            raise Unsupported(f"`is None` on {ast.unparse(node)}")
+        if type(op) not in self.CMP:
             raise Unsupported("comparison operator")
-        if ta == "Int" and tb == "Int":
-            return f"decide ({a} {sym[type(op)]} {b})", "Bool"
-        if ta == "OptInt" and tb == "Int" and isinstance(op, (ast.Gt, ast.Lt, ast.GtE, ast.LtE)):
-            # Python would raise on None; every use is guarded by an `is None` test before.
-            return f"(optCmp (fun a b => decide (a {sym[type(op)]} b)) {a} {b})", "Bool"
-        if ta == tb and ta in ("Status", "Str", "Bool") and isinstance(op, (ast.Eq, ast.NotEq)):
-            return (f"({a} == {b})" if isinstance(op, ast.Eq) else f"({a} != {b})"), "Bool"
-        raise Unsupported(f"comparison {ast.unparse(left)} : {ta} vs {ast.unparse(right)} : {tb}")
+        o = self.CMP[type(op)]
+        if o in ("eq", "ne") and (l is None or r is None) and not isinstance(l, (bool, str)) and not isinstance(r, (bool, str)):
+            return self.compare(ast.Is() if o == "eq" else ast.IsNot(), l, r, node)
+        if isinstance(l, (bool, str)) or isinstance(r, (bool, str)) or l is None or r is None:
+            if o in ("eq", "ne") and not isinstance(l, T) and not isinstance(r, T):
+                return (l == r) == (o == "eq")
+            raise Unsupported(f"comparison {ast.unparse(node)}")
+        if not (isinstance(l, T) and isinstance(r, T)):
+            raise Unsupported(f"comparison {ast.unparse(node)}")
+        if l.ty == "Int" and r.ty == "Int":
+            if is_const(l) and is_const(r):
+                x, y = (int(t.args[0].strip("()").split(":")[0]) for t in (l, r))
+                return {"gt": x > y, "lt": x < y, "ge": x >= y, "le": x <= y, "eq": x == y, "ne": x != y}[o]
+            return self.res(*mk_int_cmp(o, l, r))
+        if {l.ty, r.ty} == {"OptInt", "Int"}:
+            if l.ty == "Int":
+                l, r, o = r, l, {"lt": "gt", "gt": "lt", "le": "ge", "ge": "le"}.get(o, o)
+            if l.op == "some":
+                return self.res(*mk_int_cmp(o, l.args[0], r))
+            if theory_eval(T("isSome", "Bool", l), self.known) is not True:
+                raise Unsupported(f"comparison of a possibly-None value: {ast.unparse(node)}")
+            return self.res(*mk_opt_cmp(o, l, r))
+        if l.ty == r.ty and l.ty in ("Status", "Str", "Src", "Nat") and o in ("eq", "ne"):
+            if is_const(l) and is_const(r):
+                return (l.key == r.key) == (o == "eq")
+            x, y = sorted([l, r], key=operand_key)
+            return self.res(T("cmp", "Bool", "eq", x, y), o == "eq")
+        raise Unsupported(f"comparison {ast.unparse(node)} : {l.ty} vs {r.ty}")
 
-    def call(self, n: ast.Call, env) -> tuple[str, str]:
-        f = ast.unparse(n.func)
-        if f in ("datetime.now",):
-            return "now", "Int"
-        if f in ("timedelta", "datetime.timedelta"):
-            return f"({timedelta_us(n)} : Int)", "Int"
-        if f in ("min", "max") and len(n.args) == 2 and not n.keywords:
-            a, ta = self.expr(n.args[0], env)
-            b, tb = self.expr(n.args[1], env)
-            self.want(ta, "Int", n.args[0])
-            self.want(tb, "Int", n.args[1])
-            return f"({'pyMinInt' if f == 'min' else 'pyMaxInt'} {a} {b})", "Int"
-        if f == "math.isnan" and len(n.args) == 1:
-            a = n.args[0]
-            if isinstance(a, ast.Attribute) and a.attr == "capacity" and isinstance(a.value, ast.Name) \
-                    and a.value.id in env and env[a.value.id][1] == "Msg":
-                return f"{env[a.value.id][0]}.capacityIsNaN", "Bool"
-            raise Unsupported(f"math.isnan({ast.unparse(a)})")
-        if f == "len" and len(n.args) == 1:
-            c, t = self.expr(n.args[0], env)
-            self.want(t, "SetNat", n.args[0])
-            return f"({c}.length : Int)", "Int"
-        if f == "next" and len(n.args) == 2 and isinstance(n.args[0], ast.GeneratorExp):
-            g = n.args[0]
-            if not (isinstance(n.args[1], ast.Constant) and n.args[1].value is None and len(g.generators) == 1):
-                raise Unsupported("next(...) form")
-            gen = g.generators[0]
-            if not (isinstance(gen.target, ast.Name) and isinstance(g.elt, ast.Name) and g.elt.id == gen.target.id
-                    and len(gen.ifs) == 1 and not gen.is_async):
-                raise Unsupported("next(generator) form")
-            xs, t = self.expr(gen.iter, env)
-            self.want(t, "ListStr", gen.iter)
-            env2 = dict(env)
-            env2[gen.target.id] = (gen.target.id, "ErrElem")
-            c, tc = self.expr(gen.ifs[0], env2)
-            self.want(tc, "Bool", gen.ifs[0])
-            return f"({xs}.find? (fun {gen.target.id} => {c}))", "OptStr"
-        if f == "selected_from" and self.mode == "iteration" and len(n.args) == 2:
-            a0, a1 = n.args
-            if not (isinstance(a0, ast.Name) and a0.id in env and env[a0.id][1] == "Selected" and isinstance(a1, ast.Name)
-                    and a1.id in self.extra["sources"]):
-                raise Unsupported(f"selected_from({ast.unparse(a0)}, {ast.unparse(a1)})")
-            return f"({env[a0.id][0]}.src == Src.{camel(a1.id)})", "Bool"
-        if isinstance(n.func, ast.Attribute):
-            recv, meth = n.func.value, n.func.attr
-            p = self_path(recv)
-            if p is None and isinstance(recv, ast.Name) and self.cls in self.reg.class_nodes \
-                    and recv.id == self.reg.class_nodes[self.cls].name:
-                p = []  # ClassName._static_helper(...)
-            if p is not None:
-                ty = resolve_path_type(self.cls, p) if p else self.cls
-                if ty == "SetNat" and meth == "intersection" and len(n.args) == 1:
-                    a, ta = self.expr(n.args[0], env)
-                    self.want(ta, "SetNat", n.args[0])
-                    return f"(setInter s.{'.'.join(lean_path(self.cls, p))} {a})", "SetNat"
-                mi = self.reg.get(ty, meth)
-                if mi.mutating or mi.param_mut:
-                    raise Unsupported(f"state-changing call inside an expression: {ast.unparse(n)}")
-                recv_code = "s" if not p else "s." + ".".join(lean_path(self.cls, p))
-                return f"({mi.lean} {recv_code} now{self.args(mi, n, env)})", mi.ret
-        raise Unsupported(f"call {ast.unparse(n)}")
-
-    def args(self, mi: MethodInfo, n: ast.Call, env) -> str:
-        if n.keywords or len(n.args) != len(mi.params):
-            raise Unsupported(f"arguments of {ast.unparse(n)}")
-        out = ""
-        for a, (_, pty) in zip(n.args, mi.params):
-            if isinstance(a, ast.Attribute) and a.attr == "message" and isinstance(a.value, ast.Name) \
-                    and a.value.id in env and env[a.value.id][1] == "Selected":
-                field = {"Msg": "msg", "SpResult": "result"}.get(pty)
-                if field is None:
-                    raise Unsupported(f"selected.message passed as {pty}")
-                out += f" {env[a.value.id][0]}.{field}"
-                continue
-            c, t = self.expr(a, env)
-            self.want(t, pty, a)
-            out += f" {c}"
+    # ------------------------------------------------------------------ calls
+    def bind_args(self, fn, n_args: list, kwargs: dict, skip_self: bool, what: str, env_for_defaults=None) -> dict:
+        a = fn.args
+        if a.vararg or a.kwarg:
+            raise Unsupported(f"{what}: *args/**kwargs")
+        params = list(a.posonlyargs) + list(a.args)
+        if skip_self:
+            params = params[1:]
+        defaults = dict(zip([p.arg for p in params][len(params) - len(a.defaults):], a.defaults)) if a.defaults else {}
+        out: dict = {}
+        if len(n_args) > len(params):
+            raise Unsupported(f"{what}: too many arguments")
+        for p, v in zip(params, n_args):
+            out[p.arg] = v
+        names = [p.arg for p in params] + [p.arg for p in a.kwonlyargs]
+        for k, v in kwargs.items():
+            if k not in names or k in out:
+                raise Unsupported(f"{what}: argument {k}")
+            out[k] = v
+        for p, d in list(defaults.items()) + [(p.arg, d) for p, d in zip(a.kwonlyargs, a.kw_defaults) if d is not None]:
+            if p not in out:
+                out[p] = self.ev(d, {})
+        for nm in names:
+            if nm not in out:
+                raise Unsupported(f"{what}: missing argument {nm}")
+        self._param_ann = {p.arg: (ast.unparse(p.annotation) if p.annotation is not None else "")
+                           for p in params + list(a.kwonlyargs)}
         return out
 
-    # ------------------------------------------------------------------ statements
-    def fresh(self) -> str:
-        self.counter += 1
-        return f"r{self.counter}"
+    def coerce_param(self, v, ann: str):
+        """`selected.message` takes the type its receiver declares."""
+        if isinstance(v, Special) and v.kind == "selmsg":
+            ty = PARAM_TYPES.get(ann)
+            if ty == "Msg":
+                return T("field", "Msg", v.payload, "msg")
+            if ty == "SpResult":
+                return T("field", "SpResult", v.payload, "result")
+            raise Unsupported(f"selected.message passed to a parameter annotated {ann!r}")
+        return v
 
-    def finish(self, env, value: tuple[str, str] | None) -> str:
-        """Term returned when the function ends (value = translated `return` operand or None)."""
-        if self.mode in ("iteration", "poolloop"):
-            return "(s, sent)"
-        ret = self.mi.ret
-        if ret == "Unit":
-            if value is not None and value[1] != "None":
-                raise Unsupported(f"{self.mi.pyname}: returns a value but is annotated -> None")
-            if not self.mi.mutating:
-                raise Unsupported(f"{self.mi.pyname}: neither result nor effect")
-            return "s"
-        if value is None:
-            if ret.startswith("Opt"):
-                value = ("none", "None")
-            else:
-                raise Unsupported(f"{self.mi.pyname}: falls off the end without a value")
-        code, ty = value
-        if ret.startswith("Opt"):
-            base = ret[3:]
-            if ty == "None":
-                code = "none"
-            elif ty == base:
-                code = f"(some {code})"
-            elif ty != ret:
-                raise Unsupported(f"{self.mi.pyname}: returns {ty}, expected {ret}")
-        elif ty != ret:
-            raise Unsupported(f"{self.mi.pyname}: returns {ty}, expected {ret}")
-        return f"(s, {code})" if self.mi.mutating else code
-
-    def coerce(self, code: str, ty: str, target: str, node: ast.AST) -> str:
-        if ty == target:
-            return code
-        if target.startswith("Opt"):
-            if ty == "None":
-                return "none"
-            if ty == target[3:]:
-                return f"(some {code})"
-        raise Unsupported(f"cannot store {ty} into {target}: {ast.unparse(node)}")
-
-    def spath(self, node: ast.expr, env) -> list[str] | None:
-        """Python attribute path from `self` of an expression rooted at `self` or at an alias parameter of an inlined helper."""
-        p = self_path(node)
-        if p is not None:
-            return p
-        names: list[str] = []
-        while isinstance(node, ast.Attribute):
-            names.append(node.attr)
-            node = node.value
-        if isinstance(node, ast.Name) and node.id in env.get("$alias", {}):
-            return list(env["$alias"][node.id]) + list(reversed(names))
-        return None
-
-    def mut_call(self, n: ast.Call, env, ind: str) -> tuple[list[str], tuple[str, str] | None]:
-        """A state-changing call in statement position -> (lines updating `s`, returned value)."""
-        if not isinstance(n.func, ast.Attribute):
-            raise Unsupported(f"call {ast.unparse(n)}")
-        p = self.spath(n.func.value, env)
-        meth = n.func.attr
-        if p is None:
-            raise Unsupported(f"call {ast.unparse(n)}")
-        ty = resolve_path_type(self.cls, p) if p else self.cls
-        lp = lean_path(self.cls, p)
-        if ty == "Timer" and meth == "reset" and not n.args and not n.keywords:
-            return [f"{ind}let s := {set_path(lp, 'now')}"], None
-        if ty == "SetNat" and meth in ("add", "discard") and len(n.args) == 1 and not n.keywords:
-            a, ta = self.expr(n.args[0], env)
-            self.want(ta, "Nat", n.args[0])
-            fn = "setAdd" if meth == "add" else "setDiscard"
-            return [f"{ind}let s := {set_path(lp, f'({fn} s.' + '.'.join(lp) + f' {a})')}"], None
-        mi = self.reg.get(ty, meth)
-        recv = "s" if not lp else "s." + ".".join(lp)
-        callc = f"{mi.lean} {recv} now{self.args(mi, n, env)}"
-        if not mi.mutating:
-            c = f"({callc})"
-            return [], (c, mi.ret)
-        if mi.ret == "Unit":
-            new = f"({callc})"
-            return [f"{ind}let s := {set_path(lp, new) if lp else new}"], None
-        r = self.fresh()
-        lines = [f"{ind}let {r} := {callc}"]
-        lines.append(f"{ind}let s := {set_path(lp, r + '.1') if lp else r + '.1'}")
-        return lines, (f"{r}.2", mi.ret)
-
-    def inline_target(self, v: ast.expr) -> MethodInfo | None:
-        """Is `v` a call of a helper that changes an object passed as argument (to be inlined)?"""
-        if isinstance(v, ast.Call):
-            hc = self.reg.helper_call(self.cls, v)
-            if hc is not None and hc in self.reg.methods and self.reg.methods[hc].param_mut and hc[0] == self.cls:
-                return self.reg.methods[hc]
-        return None
-
-    def is_mut_call(self, v: ast.expr, env=None) -> bool:
-        if isinstance(v, ast.Await):
-            return False
-        if isinstance(v, ast.Call) and isinstance(v.func, ast.Attribute):
-            if self.inline_target(v) is not None:
-                return False
-            p = self.spath(v.func.value, env or {})
-            if p is None:
-                hc = self.reg.helper_call(self.cls, v)
-                if hc is not None and hc in self.reg.methods and self.reg.methods[hc].mutating:
-                    raise Unsupported(f"state-changing static call {ast.unparse(v)}")
-                return False
-            meth = v.func.attr
-            try:
-                ty = resolve_path_type(self.cls, p) if p else self.cls
-            except Unsupported:
-                return False
-            if ty == "Timer" or (ty == "SetNat" and meth in ("add", "discard")):
-                return True
-            return (ty, meth) in self.reg.methods and self.reg.methods[(ty, meth)].mutating
-        return False
-
-    def end(self, env, value, ind: str, k) -> str:
-        """The function (or the inlined helper) ends here, returning `value` (or nothing)."""
-        if k is not None:
-            return k(env, value, ind)
-        return ind + self.finish(env, value)
-
-    def inline(self, mi: MethodInfo, call: ast.Call, target: str | None, rest, env, ind: str, k) -> str:
-        """Inline `mi` (a helper that changes one of its arguments) at a statement-level call."""
-        if call.keywords or len(call.args) != len(mi.params):
-            raise Unsupported(f"arguments of {ast.unparse(call)}")
-        self.inl += 1
-        caller_prefix, callee_prefix = self.prefix, f"h{self.inl}_"
-        cenv: dict = {"$alias": {}}
-        lines: list[str] = []
-        for a, (pname, pty) in zip(call.args, mi.params):
-            ap = self.spath(a, env)
-            if ap is not None and pty in STRUCTS:
-                if resolve_path_type(self.cls, ap) != pty:
-                    raise Unsupported(f"argument {ast.unparse(a)} is not a {pty}")
-                cenv["$alias"][pname] = ap
-                cenv[pname] = ("s." + ".".join(lean_path(self.cls, ap)), pty)
-            else:
-                c, t = self.expr(a, env)
-                self.want(t, pty, a)
-                if pty == "PyStr":
-                    cenv[pname] = (c, pty)
-                else:
-                    lines.append(f"{ind}let {callee_prefix}{pname} := {c}")
-                    cenv[pname] = (callee_prefix + pname, pty)
-
-        def back(_cenv, value, ind2: str) -> str:
-            saved = self.prefix
-            self.prefix = caller_prefix
-            try:
-                env2 = dict(env)
-                pre = ""
-                if target is not None:
-                    if value is None or value[1] == "None":
-                        env2[target] = ("none", "None")
-                    else:
-                        pre = f"{ind2}let {self.prefix}{target} := {value[0]}\n"
-                        env2[target] = (self.prefix + target, value[1])
-                return pre + self.stmts(rest, env2, ind2, k)
-            finally:
-                self.prefix = saved
-
-        self.prefix = callee_prefix
+    def inline(self, fn, self_val, args: list, kwargs: dict, struct: str | None):
+        if isinstance(fn, ast.AsyncFunctionDef):
+            if self.awaiting == 0:
+                raise Unsupported(f"coroutine {fn.name} is called but not awaited")
+        awaiting, self.awaiting = self.awaiting, 0
+        decos = [ast.unparse(d) for d in fn.decorator_list]
+        static = "staticmethod" in decos
+        if any(d not in ("staticmethod", "property", "override", "classmethod") for d in decos):
+            raise Unsupported(f"decorator on {fn.name}")
+        is_method = struct is not None and self_val is not None
+        bound = self.bind_args(fn, args, kwargs, is_method and not static, fn.name)
+        ann = self._param_ann
+        env = {k: self.coerce_param(v, ann.get(k, "")) for k, v in bound.items()}
+        if is_method and not static:
+            first = (list(fn.args.posonlyargs) + list(fn.args.args))[0].arg
+            env[first] = Special("class", struct) if "classmethod" in decos else self_val
+        self.depth += 1
+        if self.depth > 40:
+            raise Unsupported("recursion")
+        self.struct_stack.append(struct if struct is not None else self.struct_stack[-1])
         try:
-            body = self.stmts(mi.body, cenv, ind, back)
+            self.block(fn.body, env)
+            return None
+        except _Return as r:
+            return r.value
+        except (_Continue, _Break):
+            raise Unsupported(f"continue/break escaping {fn.name}")
         finally:
-            self.prefix = caller_prefix
-        return "\n".join(lines + [body])
+            self.struct_stack.pop()
+            self.depth -= 1
+            self.awaiting = awaiting
 
-    @staticmethod
-    def search_loop(assign: ast.stmt, loop: ast.stmt):
-        """`x = None` + `for v in XS: if C: x = v; break`  ==  `x = next((v for v in XS if C), None)`."""
-        if not (isinstance(assign, ast.Assign) and len(assign.targets) == 1 and isinstance(assign.targets[0], ast.Name)
-                and isinstance(assign.value, ast.Constant) and assign.value.value is None):
-            return None
-        x = assign.targets[0].id
-        if not (isinstance(loop, ast.For) and not loop.orelse and isinstance(loop.target, ast.Name)):
-            return None
-        body = [b for b in loop.body if not is_logging(b)]
-        if len(body) != 1 or not isinstance(body[0], ast.If) or body[0].orelse:
-            return None
-        ib = [b for b in body[0].body if not is_logging(b)]
-        if len(ib) != 2 or not isinstance(ib[1], ast.Break):
-            return None
-        st = ib[0]
-        if not (isinstance(st, ast.Assign) and len(st.targets) == 1 and isinstance(st.targets[0], ast.Name)
-                and st.targets[0].id == x and isinstance(st.value, ast.Name) and st.value.id == loop.target.id):
-            return None
-        gen = ast.GeneratorExp(elt=ast.Name(id=loop.target.id, ctx=ast.Load()),
-                               generators=[ast.comprehension(target=loop.target, iter=loop.iter, ifs=[body[0].test],
-                                                             is_async=0)])
-        new = ast.Assign(targets=[assign.targets[0]],
-                         value=ast.Call(func=ast.Name(id="next", ctx=ast.Load()),
-                                        args=[gen, ast.Constant(value=None)], keywords=[]))
-        return ast.fix_missing_locations(ast.copy_location(new, assign))
+    def to_term(self, v, ty: str, node: ast.AST) -> T:
+        """Coerce a value to a term of (leaf) type `ty`."""
+        if isinstance(v, bool) and ty == "Bool":
+            return TRUE if v else FALSE
+        if ty.startswith("Opt"):
+            if v is None or (isinstance(v, T) and v.ty == "None"):
+                return NONE
+            if isinstance(v, T) and v.ty == ty:
+                return v
+            if isinstance(v, T) and v.ty == ty[3:]:
+                return T("some", ty, v)
+        if isinstance(v, Ref) and v.ty == ty and ty in ("SetNat", "Timer"):
+            return self.state[v.path]
+        if isinstance(v, Ref) and v.ty == ty and ty in OBJECT_STRUCTS:
+            return self.fold(v.path, ty)
+        if isinstance(v, T) and v.ty == ty:
+            return v
+        raise Unsupported(f"cannot use {ast.unparse(node)[:60]} as {ty}")
 
-    @staticmethod
-    def match_to_if(m: ast.Match) -> list[ast.stmt]:
-        """`match x: case V: … case _: …` with value patterns -> the equivalent if/elif/else chain."""
-        chain: list[ast.stmt] = []
-        for case in reversed(m.cases):
-            pat = case.pattern
-            if isinstance(pat, ast.MatchAs) and pat.pattern is None and pat.name is None and case.guard is None:
-                chain = list(case.body)
-                continue
-            if isinstance(pat, ast.MatchValue):
-                tests: list[ast.expr] = [ast.Compare(left=m.subject, ops=[ast.Eq()], comparators=[pat.value])]
-            elif isinstance(pat, ast.MatchOr) and all(isinstance(q, ast.MatchValue) for q in pat.patterns):
-                tests = [ast.BoolOp(op=ast.Or(), values=[ast.Compare(left=m.subject, ops=[ast.Eq()], comparators=[q.value])
-                                                          for q in pat.patterns])]
-            else:
-                raise Unsupported(f"match pattern {ast.unparse(pat)}")
-            if case.guard is not None:
-                tests.append(case.guard)
-            test = tests[0] if len(tests) == 1 else ast.BoolOp(op=ast.And(), values=tests)
-            node = ast.If(test=test, body=list(case.body), orelse=chain)
-            chain = [ast.fix_missing_locations(ast.copy_location(node, m))]
-        return chain
+    def contract_call(self, key: tuple, recv: Ref, args: list, kwargs: dict, node: ast.Call):
+        spec = CONTRACT[key]
+        fn = self.ctx.method(*key)
+        bound = self.bind_args(fn, args, kwargs, True, key[1])
+        if len(bound) != len(spec["params"]):
+            raise Unsupported(f"{key[1]}: expected {len(spec['params'])} parameter(s)")
+        terms = []
+        for (pname, v), pty in zip(bound.items(), spec["params"]):
+            if isinstance(v, Special) and v.kind == "selmsg":
+                v = T("field", pty, v.payload, {"Msg": "msg", "SpResult": "result"}.get(pty, "?"))
+            terms.append(self.to_term(v, pty, node))
+        call = T("call", "Call", spec["lean"], self.fold(recv.path, recv.ty), *terms)
+        if not spec["mut"]:
+            return T(call.op, spec["ret"], *call.args)
+        if spec["ret"] == "Unit":
+            self.assign_object(recv.path, recv.ty, T(call.op, recv.ty, *call.args))
+            return None
+        self.assign_object(recv.path, recv.ty, T("proj", recv.ty, call, 1))
+        return T("proj", spec["ret"], call, 2)
 
-    def stmts(self, ss: list[ast.stmt], env: dict, ind: str, k=None) -> str:
-        if not ss:
-            return self.end(env, None, ind, k)
-        s, rest = ss[0], ss[1:]
-        if is_logging(s):
-            return self.stmts(rest, env, ind, k)
-        if isinstance(s, ast.AnnAssign) and s.value is None:
-            return self.stmts(rest, env, ind, k)  # bare declaration `x: T`
-        if rest:
-            merged = self.search_loop(s, rest[0])
-            if merged is not None:
-                return self.stmts([merged] + rest[1:], env, ind, k)
-        if isinstance(s, ast.Match):
-            return self.stmts(self.match_to_if(s) + rest, env, ind, k)
-        if isinstance(s, ast.Return):
-            if self.mode != "method" and k is None:
-                raise Unsupported("return inside a loop body")
-            return self.end(env, None if s.value is None else self.ret_value(s.value, env, ind), ind, k)
-        if isinstance(s, ast.Continue):
-            if self.mode not in ("iteration", "poolloop") or k is not None:
-                raise Unsupported("continue outside the translated loop")
-            return ind + self.finish(env, None)
-        if isinstance(s, ast.If):
-            if isinstance(s.test, ast.Constant) and s.test.value is True:
-                return self.stmts(list(s.body) + rest, env, ind, k)
-            c, t = self.expr(s.test, env)
-            self.want(t, "Bool", s.test)
-            th = self.stmts(list(s.body) + rest, env, ind + "  ", k)
-            el = self.stmts(list(s.orelse) + rest, env, ind + "  ", k)
-            return f"{ind}if {c} then\n{th}\n{ind}else\n{el}"
-        if isinstance(s, (ast.Assign, ast.AnnAssign)):
-            targets = s.targets if isinstance(s, ast.Assign) else [s.target]
-            value = s.value
-            if len(targets) != 1 or value is None:
-                raise Unsupported(f"assignment {ast.unparse(s)}")
-            tgt = targets[0]
-            lines: list[str] = []
-            callee = self.inline_target(value)
-            if callee is not None:
-                if not isinstance(tgt, ast.Name):
-                    raise Unsupported(f"assignment {ast.unparse(s)}")
-                return self.inline(callee, value, tgt.id, rest, env, ind, k)  # type: ignore[arg-type]
-            if self.is_mut_call(value, env):
-                lines, val = self.mut_call(value, env, ind)  # type: ignore[arg-type]
-                if val is None:
-                    raise Unsupported(f"assignment of a call without result: {ast.unparse(s)}")
-                code, ty = val
-            else:
-                code, ty = self.expr(value, env)
-            env = dict(env)
-            if isinstance(tgt, ast.Name):
-                if ty == "None":
-                    env[tgt.id] = ("none", "None")  # typed at its first use; no binding emitted
-                else:
-                    lines.append(f"{ind}let {self.prefix}{tgt.id} := {code}")
-                    env[tgt.id] = (self.prefix + tgt.id, ty)
-            else:
-                p = self.spath(tgt, env)
-                if p is None:
-                    raise Unsupported(f"assignment target {ast.unparse(tgt)}")
-                if p[-1] == "_timedelta_zero":
-                    if code != "(0 : Int)":
-                        raise Unsupported(f"_timedelta_zero is not zero: {ast.unparse(s)}")
-                    return self.stmts(rest, env, ind, k)
-                fty = resolve_path_type(self.cls, p)
-                lines.append(f"{ind}let s := {set_path(lean_path(self.cls, p), self.coerce(code, ty, fty, s))}")
-            return "\n".join(lines + [self.stmts(rest, env, ind, k)])
-        if isinstance(s, ast.Expr):
-            v = s.value
-            if isinstance(v, ast.Await):
-                return self.send(v.value, rest, env, ind, k)
-            callee = self.inline_target(v)
-            if callee is not None:
-                return self.inline(callee, v, None, rest, env, ind, k)  # type: ignore[arg-type]
-            if isinstance(v, ast.Call) and self.is_mut_call(v, env):
-                lines, _ = self.mut_call(v, env, ind)
-                return "\n".join(lines + [self.stmts(rest, env, ind, k)])
-            if isinstance(v, ast.Call):
-                # a pure call whose result is dropped: no effect
-                self.expr(v, env)
-                return self.stmts(rest, env, ind, k)
-        raise Unsupported(f"statement {ast.unparse(s)[:80]}")
+    def generator_pred(self, g: ast.GeneratorExp, env: dict, want_elt_is_var: bool) -> tuple[T, T]:
+        """(list term, predicate over `e`) of `(x for x in xs if p)` / `(p for x in xs)`."""
+        if len(g.generators) != 1 or g.generators[0].is_async or not isinstance(g.generators[0].target, ast.Name):
+            raise Unsupported("generator form")
+        gen = g.generators[0]
+        xs = self.ev(gen.iter, env)
+        if not (isinstance(xs, T) and xs.ty == "ListStr"):
+            raise Unsupported(f"iteration over {ast.unparse(gen.iter)}")
+        env2 = dict(env)
+        env2[gen.target.id] = T("var", "ErrElem", "e")
+        conds = list(gen.ifs)
+        if want_elt_is_var:
+            if not (isinstance(g.elt, ast.Name) and g.elt.id == gen.target.id):
+                raise Unsupported("next(generator) form")
+        else:
+            conds = conds + [g.elt]
+        return xs, self.pure_pred(conds, env2)
 
-    def ret_value(self, v: ast.expr, env, ind: str) -> tuple[str, str]:
-        if self.is_mut_call(v, env) or self.inline_target(v) is not None:
-            raise Unsupported("return of a state-changing call")
-        return self.expr(v, env)
+    def pure_pred(self, conds: list[ast.expr], env: dict) -> T:
+        saved = self.pure
+        self.pure = True
+        try:
+            parts = []
+            for c in conds:
+                v = self._ev(c, env)
+                if v is True:
+                    continue
+                if v is False:
+                    return FALSE
+                if not (isinstance(v, T) and v.ty == "Bool"):
+                    raise Unsupported(f"predicate {ast.unparse(c)}")
+                parts.append(v)
+        finally:
+            self.pure = saved
+        if not parts:
+            return TRUE
+        return parts[0] if len(parts) == 1 else T("and", "Bool", *parts)
 
-    def send(self, call: ast.expr, rest, env, ind: str, k=None) -> str:
+    def call(self, n: ast.Call, env: dict):
+        f = ast.unparse(n.func)
+        if is_log_call(n):
+            return None
+        if f in ("datetime.now", "datetime.datetime.now"):
+            return T("var", "Int", "now")
+        if f in ("timedelta", "datetime.timedelta"):
+            return int_const(timedelta_us(n))
+        args = None
+
+        def argv():
+            nonlocal args
+            if args is None:
+                if any(isinstance(a, ast.Starred) for a in n.args) or any(k.arg is None for k in n.keywords):
+                    raise Unsupported(f"arguments of {ast.unparse(n)[:60]}")
+                args = ([self.ev(a, env) for a in n.args], {k.arg: self.ev(k.value, env) for k in n.keywords})
+            return args
+
+        if f in ("min", "max") and len(n.args) == 2 and not n.keywords:
+            a, b = (self.as_int(v, n) for v in argv()[0])
+            return T("fn", "Int", "pyMinInt" if f == "min" else "pyMaxInt", a, b)
+        if f == "type" and len(n.args) == 1 and not n.keywords:
+            v = argv()[0][0]
+            if isinstance(v, Ref) and v.ty in OBJECT_STRUCTS:
+                return Special("class", v.ty)
+            raise Unsupported(f"type({ast.unparse(n.args[0])})")
+        if f == "math.isnan" and len(n.args) == 1:
+            v = argv()[0][0]
+            if isinstance(v, Special) and v.kind == "capacity":
+                return T("field", "Bool", v.payload, "capacityIsNaN")
+            raise Unsupported(f"math.isnan({ast.unparse(n.args[0])})")
+        if f == "len" and len(n.args) == 1:
+            v = argv()[0][0]
+            if isinstance(v, Ref) and v.ty == "SetNat":
+                v = self.state[v.path]
+            if isinstance(v, T) and v.ty == "SetNat":
+                return T("len", "Int", v)
+            raise Unsupported(f"len({ast.unparse(n.args[0])})")
+        if f == "next" and len(n.args) == 2 and isinstance(n.args[0], ast.GeneratorExp) \
+                and isinstance(n.args[1], ast.Constant) and n.args[1].value is None:
+            xs, p = self.generator_pred(n.args[0], env, True)
+            return T("find", "OptStr", xs, p)
+        if f in ("any", "all") and len(n.args) == 1 and isinstance(n.args[0], ast.GeneratorExp) and not n.keywords:
+            xs, p = self.generator_pred(n.args[0], env, False)
+            if f == "all":
+                p = p.args[0] if p.op == "not" else T("not", "Bool", p)
+            return self.res(T("isSome", "Bool", T("find", "OptStr", xs, p)), f == "any")
+        if f == "selected_from" and len(n.args) == 2 and not n.keywords:
+            sel, src = argv()[0]
+            role = role_of(src)
+            if not (isinstance(sel, T) and sel.ty == "Selected" and role is not None):
+                raise Unsupported(f"selected_from({ast.unparse(n.args[0])}, {ast.unparse(n.args[1])})")
+            return self.res(T("cmp", "Bool", "eq", T("field", "Src", sel, "src"), const(f"Src.{role}", "Src")), True)
+        if f == "ComponentStatus":
+            vals, kw = argv()
+            names = self.ctx.cs_fields
+            d = dict(zip(names, vals))
+            for k, v in kw.items():
+                if k not in names or k in d:
+                    raise Unsupported(f"ComponentStatus argument {k}")
+                d[k] = v
+            if set(d) != set(names):
+                raise Unsupported("ComponentStatus arguments")
+            return Special("compstatus", d["component_id"], d["value"])
+        if isinstance(n.func, ast.Name):
+            fn = self.ctx.modfuncs.get(self.struct_stack[-1], {}).get(n.func.id)
+            if fn is not None:
+                vals, kw = argv()
+                return self.inline(fn, None, vals, kw, None)
+            raise Unsupported(f"call {f}")
+        if not isinstance(n.func, ast.Attribute):
+            raise Unsupported(f"call {f}")
+        meth = n.func.attr
+        recv = self.ev(n.func.value, env)
+        if isinstance(recv, Special) and recv.kind == "class":
+            fn = self.ctx.method(recv.payload, meth)
+            if fn is None:
+                raise Unsupported(f"call {f}")
+            decos = [ast.unparse(d) for d in fn.decorator_list]
+            vals, kw = argv()
+            if "staticmethod" in decos or "classmethod" in decos:
+                return self.inline(fn, recv, vals, kw, recv.payload)
+            if vals and isinstance(vals[0], Ref) and vals[0].ty == recv.payload:  # Class.method(self, …)
+                return self.method_call(recv.payload, meth, vals[0], vals[1:], kw, n)
+            raise Unsupported(f"call {f}")
+        if isinstance(recv, Ref):
+            if recv.ty == "Timer" and meth == "reset" and not n.args and not n.keywords:
+                self.state[recv.path] = T("var", "Int", "now")
+                return None
+            if recv.ty == "SetNat":
+                vals, kw = argv()
+                if kw or len(vals) != 1:
+                    raise Unsupported(f"call {f}")
+                cur = self.state[recv.path]
+                if meth in ("add", "discard"):
+                    x = self.to_term(vals[0], "Nat", n)
+                    self.state[recv.path] = T("fn", "SetNat", "setAdd" if meth == "add" else "setDiscard", cur, x)
+                    return None
+                if meth == "intersection":
+                    return T("fn", "SetNat", "setInter", cur, self.to_term(vals[0], "SetNat", n))
+                raise Unsupported(f"call {f}")
+            if recv.ty in OBJECT_STRUCTS:
+                vals, kw = argv()
+                return self.method_call(recv.ty, meth, recv, vals, kw, n)
+        raise Unsupported(f"call {f}")
+
+    def method_call(self, struct: str, meth: str, recv: Ref, vals: list, kw: dict, n: ast.Call):
+        if (struct, meth) in CONTRACT:
+            if self.pure:
+                raise Unsupported("entry-point call inside a predicate")
+            return self.contract_call((struct, meth), recv, vals, kw, n)
+        fn = self.ctx.method(struct, meth)
+        if fn is None:
+            raise Unsupported(f"call of unknown method {struct}.{meth}")
+        if any(ast.unparse(d) == "staticmethod" for d in fn.decorator_list):
+            return self.inline(fn, Special("class", struct), vals, kw, struct)
+        return self.inline(fn, recv, vals, kw, struct)
+
+    def send(self, call: ast.expr, env: dict):
         if not (isinstance(call, ast.Call) and isinstance(call.func, ast.Attribute) and call.func.attr == "send"
                 and len(call.args) == 1 and not call.keywords):
-            raise Unsupported(f"await {ast.unparse(call)}")
-        if k is not None:
-            raise Unsupported("await inside an inlined helper")
-        arg = call.args[0]
+            raise Unsupported(f"await {ast.unparse(call)[:60]}")
+        if self.sent is not None:
+            raise Unsupported("more than one send in an iteration")
+        arg = self.ev(call.args[0], env)
         if self.mode == "iteration":
-            if not (isinstance(arg, ast.Call) and ast.unparse(arg.func) == "ComponentStatus" and len(arg.args) == 2
-                    and ast.unparse(arg.args[0]) == "self.battery_id" and ast.unparse(call.func.value) == "status_sender"):
-                raise Unsupported(f"send of {ast.unparse(arg)}")
-            c, t = self.expr(arg.args[1], env)
-            c = self.coerce(c, t, "OptStatus", arg)
+            snd = self.ev(call.func.value, env)
+            if not (isinstance(snd, Special) and snd.kind == "sender"):
+                raise Unsupported(f"send on {ast.unparse(call.func.value)}")
+            if not (isinstance(arg, Special) and arg.kind == "compstatus" and arg.payload is BATTERY_ID):
+                raise Unsupported(f"send of {ast.unparse(call.args[0])}")
+            self.sent = self.to_term(arg.extra, "OptStatus", call)
+            if self.sent.key == "none":
+                raise Unsupported("send of None")
         elif self.mode == "poolloop":
             if ast.unparse(call.func.value) != "self._component_status_sender":
                 raise Unsupported(f"send on {ast.unparse(call.func.value)}")
-            c, t = self.expr(arg, env)
-            c = self.coerce(c, t, "OptPoolStatus", arg)
+            if not (isinstance(arg, Ref) and arg.ty == "PoolStatus"):
+                raise Unsupported(f"send of {ast.unparse(call.args[0])}")
+            self.sent = T("some", "OptPoolStatus", self.fold(arg.path, "PoolStatus"))
+            self.sent_watch = (arg.path, self.fold(arg.path, "PoolStatus").key)
         else:
             raise Unsupported("await in a method")
-        env = dict(env)
-        return f"{ind}let sent := {c}\n" + self.stmts(rest, env, ind, k)
+        return None
+
+    # ------------------------------------------------------------------ statements
+    def assign(self, tgt: ast.expr, v, env: dict, node: ast.AST) -> None:
+        if isinstance(tgt, ast.Name):
+            env[tgt.id] = v
+            return
+        if isinstance(tgt, (ast.Tuple, ast.List)):
+            if not isinstance(v, tuple) or len(v) != len(tgt.elts) or any(isinstance(e, ast.Starred) for e in tgt.elts):
+                raise Unsupported(f"unpacking {ast.unparse(node)[:80]}")
+            for t, x in zip(tgt.elts, v):
+                self.assign(t, x, env, node)
+            return
+        if isinstance(tgt, ast.Attribute):
+            if tgt.attr == "_timedelta_zero":
+                if not (isinstance(v, T) and v.key == "(0 : Int)"):
+                    raise Unsupported(f"_timedelta_zero is not zero: {ast.unparse(node)}")
+                return
+            base = self.ev(tgt.value, env)
+            if isinstance(base, Ref) and base.ty in STRUCTS and tgt.attr in STRUCTS[base.ty]:
+                fty = STRUCTS[base.ty][tgt.attr][1]
+                if fty in REF_TYPES:
+                    raise Unsupported(f"assignment replaces an object: {ast.unparse(node)[:80]}")
+                self.state[base.path + (tgt.attr,)] = self.to_term(v, fty, node)
+                return
+        raise Unsupported(f"assignment target {ast.unparse(tgt)}")
+
+    def block(self, ss: list[ast.stmt], env: dict) -> None:
+        for s in ss:
+            self.stmt(s, env)
+
+    def stmt(self, s: ast.stmt, env: dict) -> None:
+        if self.ctx.is_logging(s):
+            return
+        if isinstance(s, ast.Return):
+            raise _Return(None if s.value is None else self.ev(s.value, env))
+        if isinstance(s, ast.Continue):
+            raise _Continue()
+        if isinstance(s, ast.Break):
+            raise _Break()
+        if isinstance(s, ast.If):
+            self.block(s.body if self.truth(self.ev(s.test, env), s.test) else s.orelse, env)
+            return
+        if isinstance(s, ast.Match):
+            subj = self.ev(s.subject, env)
+            for case in s.cases:
+                if self.case_matches(case.pattern, subj, env, s) and \
+                        (case.guard is None or self.truth(self.ev(case.guard, env), case.guard)):
+                    self.block(case.body, env)
+                    return
+            return
+        if isinstance(s, ast.Assign):
+            v = self.ev(s.value, env)
+            for tgt in s.targets:
+                self.assign(tgt, v, env, s)
+            return
+        if isinstance(s, ast.AnnAssign):
+            self.assign(s.target, self.ev(s.value, env), env, s)
+            return
+        if isinstance(s, ast.AugAssign):
+            cur = self.ev(s.target, env)
+            ops = {ast.Add: "+", ast.Sub: "-", ast.Mult: "*"}
+            if type(s.op) not in ops:
+                raise Unsupported(f"statement {ast.unparse(s)[:80]}")
+            v = mk_arith(ops[type(s.op)], self.as_int(cur, s), self.as_int(self.ev(s.value, env), s))
+            self.assign(s.target, v, env, s)
+            return
+        if isinstance(s, ast.Expr):
+            self.ev(s.value, env)
+            return
+        if isinstance(s, ast.For):
+            self.search_loop(s, env)
+            return
+        raise Unsupported(f"statement {ast.unparse(s)[:80]}")
+
+    def case_matches(self, pat: ast.pattern, subj, env: dict, node: ast.AST) -> bool:
+        if isinstance(pat, ast.MatchAs) and pat.pattern is None:
+            if pat.name is not None:
+                env[pat.name] = subj
+            return True
+        if isinstance(pat, ast.MatchValue):
+            return bool(self.compare(ast.Eq(), subj, self.ev(pat.value, env), node))
+        if isinstance(pat, ast.MatchSingleton):
+            return bool(self.compare(ast.Is(), subj, pat.value, node)) if pat.value is None else subj is pat.value
+        if isinstance(pat, ast.MatchOr):
+            return any(self.case_matches(q, subj, env, node) for q in pat.patterns)
+        raise Unsupported(f"match pattern {ast.unparse(pat)}")
+
+    def search_loop(self, s: ast.For, env: dict) -> None:
+        """`for x in xs: if p(x): …; return/break` — at most one element (the first with `p`) acts."""
+        if not isinstance(s.target, ast.Name):
+            raise Unsupported("loop target")
+        xs = self.ev(s.iter, env)
+        if not (isinstance(xs, T) and xs.ty == "ListStr"):
+            raise Unsupported(f"loop over {ast.unparse(s.iter)}")
+        body = [b for b in s.body if not self.ctx.is_logging(b)]
+        if len(body) != 1 or not isinstance(body[0], ast.If):
+            raise Unsupported("loop body is not a single `if`")
+        test, then, orelse = body[0].test, body[0].body, body[0].orelse
+        acts = [b for b in then if not self.ctx.is_logging(b)]
+        rest = [b for b in orelse if not self.ctx.is_logging(b)]
+        neg = False
+        if not (acts and isinstance(acts[-1], (ast.Return, ast.Break))):
+            # `if not p(x): continue` followed by nothing is not a search; accept the mirrored `if not p: continue else: …`
+            if len(acts) == 1 and isinstance(acts[0], ast.Continue) and rest and isinstance(rest[-1], (ast.Return, ast.Break)):
+                then, rest, neg = orelse, [], True
+            else:
+                raise Unsupported("loop body does not end the search")
+        if rest and not (len(rest) == 1 and isinstance(rest[0], ast.Continue)):
+            raise Unsupported("loop `else` branch")
+        env2 = dict(env)
+        env2[s.target.id] = T("var", "ErrElem", "e")
+        p = self.pure_pred([test], env2)
+        if neg:
+            p = p.args[0] if p.op == "not" else T("not", "Bool", p)
+        found = T("find", "OptStr", xs, p)
+        if self.res(T("isSome", "Bool", found), True):
+            env[s.target.id] = T("get", "ErrElem", found)
+            try:
+                self.block(then, env)
+            except _Break:
+                return
+            raise Unsupported("search loop continues after a hit")
+        self.block(s.orelse, env)
+
+
+# --------------------------------------------------------------------------- paths -> canonical tree -> Lean
+class Outcome:
+    def __init__(self, decisions, state: T | None, ret: T | None, sent: T | None):
+        self.decisions, self.state, self.ret, self.sent = decisions, state, ret, sent
+        self.key = "|".join(x.key if x is not None else "-" for x in (state, ret, sent))
+
+    def terms(self) -> list[T]:
+        return [x for x in (self.state, self.ret, self.sent) if x is not None]
+
+
+def normalise_state(ex: Exec) -> None:
+    """A field that ends with the constant it is known to have had on this path is unchanged."""
+    for p, ty in leaf_paths(ex.root):
+        v, init = ex.state[p], ex.init_term(p)
+        if not is_const(v):
+            continue
+        same = None
+        if ty == "Bool":
+            same = theory_eval(init, ex.known) == (v.key == "true") if theory_eval(init, ex.known) is not None else None
+        elif ty in ENUMS:
+            same = theory_eval(T("cmp", "Bool", "eq", init, v), ex.known) is True
+        elif ty.startswith("Opt") and v.key == "none":
+            same = theory_eval(T("isSome", "Bool", init), ex.known) is False
+        if same:
+            ex.state[p] = init
+
+
+def explore(ctx: Ctx, root: str, mode: str, run, limit: int = 4000) -> list[Outcome]:
+    """All paths of `run(ex) -> (ret, …)`: depth-first over the decisions."""
+    outs: list[Outcome] = []
+    script: list[bool] = []
+    while True:
+        ex = Exec(ctx, root, list(script), mode)
+        ret = run(ex)
+        normalise_state(ex)
+        outs.append(Outcome(list(ex.decisions), ex.fold((), root), ret, ex.sent))
+        if len(outs) > limit:
+            raise Unsupported("too many paths")
+        taken = [v for _, v in ex.decisions]
+        while taken and taken[-1] is False:
+            taken.pop()
+        if not taken:
+            return outs
+        taken[-1] = False
+        script = taken
+
+
+class Node:
+    def __init__(self, atom: T | None, yes=None, no=None, leaf: Outcome | None = None):
+        self.atom, self.yes, self.no, self.leaf = atom, yes, no, leaf
+        self.key = leaf.key if leaf is not None else f"({atom.key}?{yes.key}:{no.key})"
+
+
+def build_tree(paths: list[Outcome], known: dict) -> Node:
+    def consistent(o: Outcome) -> bool:
+        for a, v in o.decisions:
+            k = theory_eval(a, known)
+            if k is not None and k != v:
+                return False
+        return True
+
+    live = [o for o in paths if consistent(o)]
+    if not live:
+        raise Unsupported("internal: no path for a valuation")
+    open_atoms: dict[str, T] = {}
+    for o in live:
+        for a, _ in o.decisions:
+            if theory_eval(a, known) is None:
+                open_atoms[a.key] = a
+    if not open_atoms:
+        if len({o.key for o in live}) != 1:
+            raise Unsupported("internal: ambiguous paths")
+        return Node(None, leaf=live[0])
+    atom = min(open_atoms.values(), key=atom_rank)
+    if atom.op == "cmp" and atom.args[0] == "eq" and atom.args[1].ty in ENUMS and not is_const(atom.args[1]):
+        # the alternatives of an enum are split in the order of the enum, whichever of them the source spells out
+        for c in ENUMS[atom.args[1].ty]:
+            cand = T("cmp", "Bool", "eq", atom.args[1], const(c, atom.args[1].ty))
+            if theory_eval(cand, known) is None:
+                atom = cand
+                break
+    yes = build_tree(live, {**known, atom.key: True})
+    no = build_tree(live, {**known, atom.key: False})
+    if yes.key == no.key:
+        return yes
+    return Node(atom, yes, no)
+
+
+class Emitter:
+    def __init__(self, kind: str):
+        self.kind = kind  # "state" | "pair" | "value" | "iter"
+        self.n = 0
+
+    def lets(self, terms: list[T], bound: dict, ind: str) -> tuple[list[str], dict]:
+        lines: list[str] = []
+        for t in terms:
+            for x in subterms(t):
+                if x.op == "proj" and x.args[0].op == "call" and x.args[0].key not in bound:
+                    c = x.args[0]
+                    self.n += 1
+                    code = render(c, bound)
+                    lines.append(f"{ind}let r{self.n} := {code[1:-1] if code.startswith('(') else code}")
+                    bound = {**bound, c.key: f"r{self.n}"}
+        return lines, bound
+
+    def leaf(self, o: Outcome, bound: dict) -> str:
+        st = render(o.state, bound)
+        if self.kind == "state":
+            return st
+        if self.kind == "value":
+            return render(o.ret, bound)
+        second = o.ret if self.kind == "pair" else (o.sent if o.sent is not None else NONE)
+        return f"({st}, {render(second, bound)})"
+
+    def emit(self, node: Node, ind: str, bound: dict) -> str:
+        if node.leaf is not None:
+            terms = node.leaf.terms() if self.kind != "value" else [node.leaf.ret]
+            lines, bound = self.lets(terms, bound, ind)
+            return "\n".join(lines + [ind + self.leaf(node.leaf, bound)])
+        lines, bound = self.lets([node.atom], bound, ind)
+        return "\n".join(lines + [f"{ind}if {render(node.atom, bound)} then", self.emit(node.yes, ind + "  ", bound),
+                                  f"{ind}else", self.emit(node.no, ind + "  ", bound)])
+
+
+def ret_term(ex: Exec, v, ty: str, what: str) -> T | None:
+    if ty == "Unit":
+        if v is not None:
+            raise Unsupported(f"{what}: returns a value but is declared to return None")
+        return None
+    if ty == "SetNat" and isinstance(v, Ref) and v.ty == "SetNat":
+        return ex.state[v.path]
+    return ex.to_term(v, ty, ast.Name(id=what))
+
+
+def translate_method(ctx: Ctx, key: tuple[str, str]) -> str:
+    spec = CONTRACT[key]
+    struct, pyname = key
+    fn = ctx.method(struct, pyname)
+    if fn is None:
+        raise Unsupported(f"method {struct}.{pyname} not found")
+    params = (list(fn.args.posonlyargs) + list(fn.args.args))[1:]
+    if len(params) != len(spec["params"]) or fn.args.kwonlyargs or fn.args.vararg or fn.args.kwarg:
+        raise Unsupported(f"{pyname}: parameters")
+    for p, ty in zip(params, spec["params"]):
+        ann = ast.unparse(p.annotation) if p.annotation is not None else ""
+        if ann in PARAM_TYPES and PARAM_TYPES[ann] != ty:
+            raise Unsupported(f"{pyname}: parameter {p.arg}: {ann!r}")
+    names = [PARAM_NAME[ty] for ty in spec["params"]]
+
+    def run(ex: Exec):
+        args = [T("var", ty, nm) for ty, nm in zip(spec["params"], names)]
+        v = ex.inline(fn, Ref((), struct), args, {}, struct)
+        return ret_term(ex, v, spec["ret"], pyname)
+
+    paths = explore(ctx, struct, "method", run)
+    if not spec["mut"] and any(o.state.key != "s" for o in paths):
+        raise Unsupported(f"{pyname}: changes the object but is used as a pure function")
+    tree = build_tree(paths, {})
+    kind = "value" if not spec["mut"] else ("state" if spec["ret"] == "Unit" else "pair")
+    body = Emitter(kind).emit(tree, "  ", {})
+    rty = lean_ty(spec["ret"]) if kind == "value" else (struct if kind == "state" else f"{struct} × {lean_ty(spec['ret'])}")
+    ps = "".join(f" ({nm} : {lean_ty(ty)})" for ty, nm in zip(spec["params"], names))
+    return f"/-- `{pyname}` -/\ndef {spec['lean']} (s : {struct}) (now : Int){ps} : {rty} :=\n{body}\n"
 
 
 # --------------------------------------------------------------------------- top level
@@ -885,11 +1493,17 @@ def find_method(cls: ast.ClassDef, name: str) -> ast.FunctionDef | ast.AsyncFunc
     raise Unsupported(f"method {cls.name}.{name} not found")
 
 
+def module_functions(mod: ast.Module) -> dict[str, ast.FunctionDef]:
+    return {n.name: n for n in mod.body if isinstance(n, ast.FunctionDef)}
+
+
 def enum_name_set(cls: ast.ClassDef, attr: str, enum: str) -> list[str]:
     for n in cls.body:
         tgt = n.target if isinstance(n, ast.AnnAssign) else (n.targets[0] if isinstance(n, ast.Assign) else None)
         if isinstance(tgt, ast.Name) and tgt.id == attr:
             v = n.value
+            if isinstance(v, ast.Call) and ast.unparse(v.func) in ("set", "frozenset") and len(v.args) == 1 and not v.keywords:
+                v = v.args[0]
             if not isinstance(v, (ast.Set, ast.List, ast.Tuple)):
                 raise Unsupported(f"{attr} is not a set display")
             out = []
@@ -906,12 +1520,187 @@ def str_list(xs: list[str]) -> str:
     return "[" + ", ".join(f'"{x}"' for x in xs) + "]"
 
 
-def emit_def(reg: Registry, mi: MethodInfo) -> str:
-    tr = MethodTr(reg, mi)
-    env = {a: (a, t) for a, t in mi.params}
-    body = tr.stmts(mi.body, env, "  ")
-    params = "".join(f" ({a} : {lean_ty(t)})" for a, t in mi.params)
-    return f"/-- `{mi.pyname}` -/\ndef {mi.lean} (s : {mi.cls}) (now : Int){params} : {mi.result_type()} :=\n{body}\n"
+def init_only_attrs(cls: ast.ClassDef) -> set[str]:
+    """Attributes of `self` that are assigned in `__init__` and nowhere else in the class."""
+    inside, outside = set(), set()
+    for m in cls.body:
+        if not isinstance(m, (ast.FunctionDef, ast.AsyncFunctionDef)):
+            continue
+        for n in ast.walk(m):
+            tg = []
+            if isinstance(n, ast.Assign):
+                tg = n.targets
+            elif isinstance(n, (ast.AnnAssign, ast.AugAssign)):
+                tg = [n.target]
+            elif isinstance(n, ast.Delete):
+                tg = n.targets
+            for t in tg:
+                if isinstance(t, ast.Attribute) and isinstance(t.value, ast.Name) and t.value.id == "self":
+                    (inside if m.name == "__init__" else outside).add(t.attr)
+    return inside - outside
+
+
+def loop_prelude(ctx: Ctx, ex: Exec, struct: str, fn, loop: ast.AsyncFor, env: dict) -> None:
+    """Bind the locals that the enclosing coroutine sets up before the loop and that cannot change afterwards:
+    receivers (by role), references to sub-objects, fields that only `__init__` assigns.  Anything else is bound to
+    a marker that raises when the loop body uses it."""
+    frozen = init_only_attrs(ctx.classes[struct])
+    self_names = {k for k, v in env.items() if isinstance(v, Ref) and v.path == ()}
+
+    def stable(e: ast.expr) -> bool:
+        if isinstance(e, ast.Name):
+            return True
+        first = None
+        while isinstance(e, ast.Attribute):
+            first, e = e, e.value
+        return isinstance(e, ast.Name) and e.id in self_names and first is not None and first.attr in frozen
+
+    def contains_loop(stmts: list[ast.stmt]) -> bool:
+        return any(n is loop for s in stmts for n in ast.walk(s))
+
+    def visit(stmts: list[ast.stmt]) -> bool:
+        for s in stmts:
+            if s is loop:
+                return True
+            if contains_loop([s]):
+                if isinstance(s, ast.While) and isinstance(s.test, ast.Constant) and s.test.value is True and not s.orelse:
+                    return visit(s.body)
+                if isinstance(s, ast.Try) and contains_loop(s.body):
+                    return visit(s.body)
+                raise Unsupported(f"the loop is nested in {type(s).__name__}")
+            if ctx.is_logging(s):
+                continue
+            tgt = val = None
+            if isinstance(s, ast.Assign) and len(s.targets) == 1:
+                tgt, val = s.targets[0], s.value
+            elif isinstance(s, ast.AnnAssign) and s.value is not None:
+                tgt, val = s.target, s.value
+            if not isinstance(tgt, ast.Name):
+                raise Unsupported(f"statement before the loop: {ast.unparse(s)[:80]}")
+            env[tgt.id] = prelude_value(val)
+        return False
+
+    def prelude_value(val: ast.expr):
+        src = ast.unparse(val)
+        if isinstance(val, ast.Await) and isinstance(val.value, ast.Call) and isinstance(val.value.func, ast.Attribute) \
+                and val.value.func.attr in ("battery_data", "inverter_data") and len(val.value.args) == 1 \
+                and not val.value.keywords:
+            try:
+                cid = ex.ev(val.value.args[0], env)
+            except Unsupported:
+                cid = None
+            want = BATTERY_ID if val.value.func.attr == "battery_data" else INVERTER_ID
+            if cid is not want:
+                raise Unsupported(f"{src}: not the id of the matching component")
+            return Special("role", "battery" if want is BATTERY_ID else "inverter")
+        try:
+            v = ex.ev(val, env)
+        except Unsupported:
+            return Special("unknown", src)
+        if isinstance(v, Special) or (isinstance(v, T) and is_const(v)):
+            return v
+        if isinstance(v, Ref) and stable(val):
+            return v
+        if isinstance(v, T) and (isinstance(val, ast.Name) or (isinstance(val, ast.Attribute) and isinstance(val.value, ast.Name)
+                                                                and val.value.id in self_names and val.attr in frozen)):
+            return v  # an alias, or a leaf field that nothing but `__init__` assigns
+        return Special("unknown", src)
+
+    if not visit(list(fn.body)):
+        raise Unsupported("loop not found")
+
+
+def role_of(v) -> str | None:
+    if isinstance(v, Special) and v.kind == "role":
+        return v.payload
+    if isinstance(v, Ref) and v.ty == "Timer" and v.path[:1] == ("_battery",):
+        return "batteryTimer"
+    if isinstance(v, Ref) and v.ty == "Timer" and v.path[:1] == ("_inverter",):
+        return "inverterTimer"
+    return None
+
+
+def translate_run_iteration(ctx: Ctx, run: ast.AsyncFunctionDef) -> str:
+    loops = [n for n in ast.walk(run) if isinstance(n, ast.AsyncFor)]
+    if len(loops) != 1:
+        raise Unsupported("_run: expected exactly one `async for`")
+    loop = loops[0]
+    if not (isinstance(loop.iter, ast.Call) and ast.unparse(loop.iter.func) == "select" and isinstance(loop.target, ast.Name)
+            and not loop.iter.keywords and not loop.orelse):
+        raise Unsupported("_run: loop is not `async for selected in select(...)`")
+    sel = T("var", "Selected", "selected")
+
+    def base_env(ex: Exec) -> dict:
+        env: dict = {}
+        params = list(run.args.posonlyargs) + list(run.args.args) + list(run.args.kwonlyargs)
+        env[params[0].arg] = Ref((), "Tracker")
+        for p in params[1:]:
+            ann = ast.unparse(p.annotation).replace(" ", "") if p.annotation is not None else ""
+            if ann == "Sender[ComponentStatus]":
+                env[p.arg] = Special("sender", "status")
+            elif ann == "Receiver[SetPowerResult]":
+                env[p.arg] = Special("role", "setPowerResult")
+            else:
+                env[p.arg] = Special("unknown", f"parameter {p.arg}: {ann}")
+        loop_prelude(ctx, ex, "Tracker", run, loop, env)
+        return env
+
+    def run_body(ex: Exec):
+        env = base_env(ex)
+        roles = []
+        for a in loop.iter.args:
+            r = role_of(ex.ev(a, env))
+            if r is None:
+                raise Unsupported(f"select() argument {ast.unparse(a)}")
+            roles.append(r)
+        if sorted(roles) != sorted(x.split(".")[1] for x in ENUMS["Src"]):
+            raise Unsupported(f"select() receivers {roles}")
+        env[loop.target.id] = sel
+        try:
+            ex.block(loop.body, env)
+        except _Continue:
+            pass
+        except (_Return, _Break):
+            raise Unsupported("return/break inside the select loop")
+        return None
+
+    paths = explore(ctx, "Tracker", "iteration", run_body)
+    tree = build_tree(paths, {})
+    body = Emitter("iter").emit(tree, "  ", {})
+    return ("/-- One iteration of the `select` loop of `BatteryStatusTracker._run`: new state and the status sent, if any. -/\n"
+            f"def Tracker.runIteration (s : Tracker) (now : Int) (selected : Selected) : Tracker × Option Status :=\n{body}\n")
+
+
+def translate_pool_update(ctx: Ctx, upd: ast.AsyncFunctionDef) -> str:
+    loops = [n for n in ast.walk(upd) if isinstance(n, ast.AsyncFor)]
+    if len(loops) != 1:
+        raise Unsupported("_update_status: expected a single `async for`")
+    pl = loops[0]
+    if not (isinstance(pl.target, ast.Name) and ast.unparse(pl.iter) == "self._merged_status_receiver" and not pl.orelse):
+        raise Unsupported("_update_status loop header")
+    if "_merged_status_receiver" not in init_only_attrs(ctx.classes["Pool"]):
+        raise Unsupported("_merged_status_receiver is re-assigned")
+
+    def run_body(ex: Exec):
+        params = list(upd.args.posonlyargs) + list(upd.args.args)
+        env: dict = {params[0].arg: Ref((), "Pool")}
+        loop_prelude(ctx, ex, "Pool", upd, pl, env)
+        env[pl.target.id] = T("var", "CompStatus", "status")
+        try:
+            ex.block(pl.body, env)
+        except _Continue:
+            pass
+        except (_Return, _Break):
+            raise Unsupported("return/break inside the loop of _update_status")
+        if ex.sent_watch is not None and ex.fold(ex.sent_watch[0], "PoolStatus").key != ex.sent_watch[1]:
+            raise Unsupported("_update_status: the status changes after it was sent")
+        return None
+
+    paths = explore(ctx, "Pool", "poolloop", run_body)
+    tree = build_tree(paths, {})
+    body = Emitter("iter").emit(tree, "  ", {})
+    return ("/-- One iteration of the loop of `ComponentPoolStatusTracker._update_status`: new state, pool status sent. -/\n"
+            f"def Pool.updateStatus (s : Pool) (now : Int) (status : CompStatus) : Pool × Option PoolStatus :=\n{body}\n")
 
 
 PRELUDE = '''import Frequenz.Model.Prelude
@@ -924,7 +1713,8 @@ namespace Extracted.BatteryStatus
 def pyMinInt (a b : Int) : Int := if b < a then b else a
 /-- Python `max(a, b)` on integers (first wins on ties). -/
 def pyMaxInt (a b : Int) : Int := if b > a then b else a
-/-- Comparison of an optional time with a time (`None` never reaches the comparison in the source). -/
+/-- Comparison of an optional time with a time (the translator accepts such a comparison only on paths where the
+source has established `is not None` before). -/
 def optCmp (f : Int → Int → Bool) (o : Option Int) (n : Int) : Bool :=
   match o with
   | none => false
@@ -935,48 +1725,7 @@ def setAdd (a : List Nat) (x : Nat) : List Nat := if a.contains x then a else a 
 def setDiscard (a : List Nat) (x : Nat) : List Nat := a.filter (fun y => y != x)
 '''
 
-
-def generate(repo: pathlib.Path) -> str:
-    trk_mod = ast.parse((repo / SOURCES[0]).read_text())
-    blk_mod = ast.parse((repo / SOURCES[1]).read_text())
-    cst_mod = ast.parse((repo / SOURCES[2]).read_text())
-    pool_mod = ast.parse((repo / SOURCES[3]).read_text())
-    mgr_mod = ast.parse((repo / SOURCES[4]).read_text())
-    out: list[str] = [PRELUDE]
-
-    # ---- ComponentStatusEnum
-    enum_cls = find_class(cst_mod, "ComponentStatusEnum")
-    members = [n.targets[0].id for n in enum_cls.body if isinstance(n, ast.Assign) and isinstance(n.targets[0], ast.Name)]
-    if sorted(members) != ["NOT_WORKING", "UNCERTAIN", "WORKING"]:
-        raise Unsupported(f"ComponentStatusEnum members {members}")
-    out.append("/-- `ComponentStatusEnum` -/\ninductive Status where\n" + "".join(f"  | {enum_ctor(m)}\n" for m in members)
-               + "deriving DecidableEq, Repr, Inhabited\n")
-
-    # ---- tables
-    trk_cls = find_class(trk_mod, "BatteryStatusTracker")
-    reg = Registry()
-    tables = {
-        "_battery_valid_relay": ("batteryValidRelay", "BatteryRelayState"),
-        "_battery_valid_state": ("batteryValidState", "BatteryComponentState"),
-        "_inverter_valid_state": ("inverterValidState", "InverterComponentState"),
-    }
-    for attr, (lean, enum) in tables.items():
-        names = enum_name_set(trk_cls, attr, enum)
-        reg.tables[attr] = lean
-        out.append(f"/-- `BatteryStatusTracker.{attr}` (member names of `{enum}`, sorted) -/\n"
-                   f"def {lean} : List String := {str_list(names)}\n")
-
-    # ---- structures
-    blk_cls = find_class(blk_mod, "BlockingStatus")
-    defaults = {}
-    for n in blk_cls.body:
-        if isinstance(n, ast.AnnAssign) and isinstance(n.target, ast.Name):
-            if n.target.id not in STRUCTS["Blocking"]:
-                raise Unsupported(f"BlockingStatus field {n.target.id}")
-            defaults[n.target.id] = n.value
-    if set(defaults) != set(STRUCTS["Blocking"]):
-        raise Unsupported(f"BlockingStatus fields {sorted(defaults)}")
-    out.append('''/-- `BlockingStatus` (times and durations in microseconds) -/
+STRUCT_TEXT = '''/-- `BlockingStatus` (times and durations in microseconds) -/
 structure Blocking where
   minDuration : Int
   maxDuration : Int
@@ -1014,48 +1763,136 @@ structure Tracker where
   battery : Stream
   inverter : Stream
 deriving DecidableEq, Repr
-''')
+'''
 
-    # ---- methods: the entry points ("contract") + whatever helpers they call
-    reg.class_nodes = {"Blocking": blk_cls, "Tracker": trk_cls}
-    for name in ("__post_init__", "block", "unblock", "is_blocked"):
-        reg.add("Blocking", find_method(blk_cls, name))
-    tracker_methods = [
-        "_handle_status_battery", "_handle_status_inverter", "_handle_status_set_power_result",
-        "_handle_status_battery_timer", "_handle_status_inverter_timer", "_get_new_status_if_changed",
-    ]
-    for name in tracker_methods:
-        reg.add("Tracker", find_method(trk_cls, name))
+POOL_STRUCT_TEXT = '''/-- `ComponentPoolStatus` -/
+structure PoolStatus where
+  working : List Nat
+  uncertain : List Nat
+deriving DecidableEq, Repr
+
+/-- `ComponentStatus` -/
+structure CompStatus where
+  componentId : Nat
+  value : Status
+deriving DecidableEq, Repr
+
+/-- The part of `ComponentPoolStatusTracker` that `_update_status` touches. -/
+structure Pool where
+  currentStatus : PoolStatus
+deriving DecidableEq, Repr
+'''
+
+
+def single_assigned_locals(fn) -> dict[str, ast.expr]:
+    seen: dict[str, list] = {}
+    for n in ast.walk(fn):
+        if isinstance(n, ast.Assign):
+            for t in n.targets:
+                if isinstance(t, ast.Name):
+                    seen.setdefault(t.id, []).append(n.value)
+        elif isinstance(n, (ast.AnnAssign, ast.AugAssign, ast.NamedExpr)) and isinstance(n.target, ast.Name):
+            seen.setdefault(n.target.id, []).append(getattr(n, "value", None))
+        elif isinstance(n, (ast.For, ast.AsyncFor)) and isinstance(n.target, ast.Name):
+            seen.setdefault(n.target.id, []).extend([None, None])
+    params = {a.arg for a in list(fn.args.posonlyargs) + list(fn.args.args) + list(fn.args.kwonlyargs)}
+    return {k: v[0] for k, v in seen.items() if len(v) == 1 and v[0] is not None and k not in params}
+
+
+def resolver(fn):
+    loc = single_assigned_locals(fn)
+
+    def resolve(e: ast.expr, depth: int = 0) -> ast.expr:
+        while isinstance(e, ast.Name) and e.id in loc and depth < 10:
+            e, depth = loc[e.id], depth + 1
+        return e
+    return resolve
+
+
+def call_args(call: ast.Call, names: list[str], what: str) -> dict[str, ast.expr]:
+    """Arguments of a call by parameter name (positional ones matched against `names`)."""
+    if len(call.args) > len(names) or any(isinstance(a, ast.Starred) for a in call.args):
+        raise Unsupported(f"{what}: positional arguments")
+    out = dict(zip(names, call.args))
+    for k in call.keywords:
+        if k.arg is None or k.arg in out:
+            raise Unsupported(f"{what}: argument {k.arg}")
+        out[k.arg] = k.value
+    return out
+
+
+def dataclass_fields(cls: ast.ClassDef) -> list[str]:
+    return [n.target.id for n in cls.body if isinstance(n, ast.AnnAssign) and isinstance(n.target, ast.Name)]
+
+
+def generate(repo: pathlib.Path) -> str:
+    trk_mod = ast.parse((repo / SOURCES[0]).read_text())
+    blk_mod = ast.parse((repo / SOURCES[1]).read_text())
+    cst_mod = ast.parse((repo / SOURCES[2]).read_text())
+    pool_mod = ast.parse((repo / SOURCES[3]).read_text())
+    mgr_mod = ast.parse((repo / SOURCES[4]).read_text())
+    out: list[str] = [PRELUDE]
+
+    # ---- ComponentStatusEnum
+    enum_cls = find_class(cst_mod, "ComponentStatusEnum")
+    members = [n.targets[0].id for n in enum_cls.body if isinstance(n, ast.Assign) and isinstance(n.targets[0], ast.Name)]
+    if sorted(members) != ["NOT_WORKING", "UNCERTAIN", "WORKING"]:
+        raise Unsupported(f"ComponentStatusEnum members {members}")
+    out.append("/-- `ComponentStatusEnum` -/\ninductive Status where\n"
+               + "".join(f"  | {enum_ctor(m)}\n" for m in sorted(members))
+               + "deriving DecidableEq, Repr, Inhabited\n")
+
+    # ---- tables
+    trk_cls = find_class(trk_mod, "BatteryStatusTracker")
+    ctx = Ctx()
+    tables = {
+        "_battery_valid_relay": ("batteryValidRelay", "BatteryRelayState"),
+        "_battery_valid_state": ("batteryValidState", "BatteryComponentState"),
+        "_inverter_valid_state": ("inverterValidState", "InverterComponentState"),
+    }
+    for attr, (lean, enum) in tables.items():
+        names = enum_name_set(trk_cls, attr, enum)
+        ctx.tables[attr] = lean
+        out.append(f"/-- `BatteryStatusTracker.{attr}` (member names of `{enum}`, sorted) -/\n"
+                   f"def {lean} : List String := {str_list(names)}\n")
+    for m in trk_cls.body:  # the tables are class constants: nothing may assign them later
+        for n in ast.walk(m):
+            if isinstance(n, ast.Attribute) and n.attr in tables and isinstance(n.ctx, (ast.Store, ast.Del)):
+                raise Unsupported(f"{n.attr} is re-assigned")
+            if isinstance(n, ast.Call) and isinstance(n.func, ast.Attribute) and isinstance(n.func.value, ast.Attribute) \
+                    and n.func.value.attr in tables and n.func.attr in IMPURE_METHODS:
+                raise Unsupported(f"{n.func.value.attr} is modified")
+
+    # ---- structures
+    blk_cls = find_class(blk_mod, "BlockingStatus")
+    defaults = {}
+    for n in blk_cls.body:
+        if isinstance(n, ast.AnnAssign) and isinstance(n.target, ast.Name):
+            if n.target.id not in STRUCTS["Blocking"]:
+                raise Unsupported(f"BlockingStatus field {n.target.id}")
+            defaults[n.target.id] = n.value
+    if set(defaults) != set(STRUCTS["Blocking"]):
+        raise Unsupported(f"BlockingStatus fields {sorted(defaults)}")
+    out.append(STRUCT_TEXT)
+
     ps_cls = find_class(cst_mod, "ComponentPoolStatus")
     pool_cls = find_class(pool_mod, "ComponentPoolStatusTracker")
-    reg.class_nodes["PoolStatus"] = ps_cls
-    reg.class_nodes["Pool"] = pool_cls
-    reg.add("PoolStatus", find_method(ps_cls, "get_working_components"))
-    run = find_method(trk_cls, "_run")
-    upd = find_method(pool_cls, "_update_status")
-    reg.discover("Blocking", [mi.body for (c, _), mi in list(reg.methods.items()) if c == "Blocking"])
-    reg.discover("Tracker", [mi.body for (c, _), mi in list(reg.methods.items()) if c == "Tracker"] + [list(run.body)])
-    reg.discover("PoolStatus", [mi.body for (c, _), mi in list(reg.methods.items()) if c == "PoolStatus"])
-    reg.discover("Pool", [list(upd.body)])
-    compute_mutating(reg)
-    reg.methods[("Blocking", "__post_init__")].lean = "Blocking.postInit"
-    emitted: list[tuple[str, str]] = []
+    stream_cls = find_class(trk_mod, "_ComponentStreamStatus")
+    cs_cls = find_class(cst_mod, "ComponentStatus")
+    ctx.classes = {"Blocking": blk_cls, "Tracker": trk_cls, "PoolStatus": ps_cls, "Pool": pool_cls, "Stream": stream_cls}
+    ctx.modfuncs = {"Blocking": module_functions(blk_mod), "Tracker": module_functions(trk_mod),
+                    "Stream": module_functions(trk_mod), "PoolStatus": module_functions(cst_mod),
+                    "Pool": module_functions(pool_mod)}
+    ctx.cs_fields = dataclass_fields(cs_cls)
+    if sorted(ctx.cs_fields) != ["component_id", "value"]:
+        raise Unsupported(f"ComponentStatus fields {ctx.cs_fields}")
+    if sorted(dataclass_fields(ps_cls)) != ["uncertain", "working"]:
+        raise Unsupported("ComponentPoolStatus fields")
 
-    def emit(key: tuple[str, str]) -> None:
-        if key in emitted:
-            return
-        emitted.append(key)  # (marks it; a cycle would be a recursion we do not translate anyway)
-        mi = reg.methods[key]
-        for callee in reg.callees(mi):
-            emit(callee)
-        if mi.param_mut and key not in reg.contract:
-            return  # inlined at its call sites
-        out.append(emit_def(reg, mi))
+    # ---- BlockingStatus
+    for name in ("__post_init__", "block", "unblock", "is_blocked"):
+        out.append(translate_method(ctx, ("Blocking", name)))
 
-    for key in [("Blocking", "__post_init__"), ("Blocking", "block"), ("Blocking", "unblock"), ("Blocking", "is_blocked")]:
-        emit(key)
-
-    # BlockingStatus(...) constructor = dataclass defaults, then __post_init__
     def default_code(field: str) -> str:
         v = defaults[field]
         if v is None:
@@ -1069,82 +1906,68 @@ deriving DecidableEq, Repr
                f"                      lastBlockingDuration := {default_code('last_blocking_duration')},\n"
                f"                      blockedUntil := {default_code('blocked_until')} }} 0\n")
 
-    for name in tracker_methods:
-        emit(("Tracker", name))
-    for key in list(reg.methods):
-        if key[0] == "Tracker":
-            emit(key)  # helpers called only from the select loop
-
-    # ---- the select loop of `_run`
-    loops = [n for n in ast.walk(run) if isinstance(n, ast.AsyncFor)]
-    if len(loops) != 1:
-        raise Unsupported("_run: expected exactly one `async for`")
-    loop = loops[0]
-    if not (isinstance(loop.iter, ast.Call) and ast.unparse(loop.iter.func) == "select" and isinstance(loop.target, ast.Name)):
-        raise Unsupported("_run: loop is not `async for selected in select(...)`")
-    sources = []
-    for a in loop.iter.args:
-        if not isinstance(a, ast.Name):
-            raise Unsupported("select() argument")
-        sources.append(a.id)
-    if sorted(sources) != sorted(["battery", "battery_timer", "inverter_timer", "inverter", "set_power_result"]):
-        raise Unsupported(f"select() receivers {sources}")
-    # what the local receiver names are bound to
-    binds = {}
-    for n in ast.walk(run):
-        if isinstance(n, ast.Assign) and len(n.targets) == 1 and isinstance(n.targets[0], ast.Name):
-            binds[n.targets[0].id] = ast.unparse(n.value)
-    expect = {"battery": "battery_receiver", "inverter": "inverter_receiver",
-              "battery_timer": "self._battery.data_recv_timer", "inverter_timer": "self._inverter.data_recv_timer",
-              "set_power_result": "set_power_result_receiver",
-              "battery_receiver": "await api_client.battery_data(self._battery.component_id)",
-              "inverter_receiver": "await api_client.inverter_data(self._inverter.component_id)"}
-    for k, v in expect.items():
-        if binds.get(k) != v:
-            raise Unsupported(f"_run: {k} is bound to {binds.get(k)!r}, expected {v!r}")
+    # ---- BatteryStatusTracker
+    for name in ("_handle_status_battery", "_handle_status_inverter", "_handle_status_set_power_result",
+                 "_handle_status_battery_timer", "_handle_status_inverter_timer", "_get_new_status_if_changed"):
+        out.append(translate_method(ctx, ("Tracker", name)))
     out.append("/-- Which receiver of the `select(...)` in `_run` produced the event. -/\ninductive Src where\n"
-               + "".join(f"  | {camel(x)}\n" for x in sources) + "deriving DecidableEq, Repr, Inhabited\n")
+               + "".join(f"  | {x.split('.')[1]}\n" for x in ENUMS["Src"]) + "deriving DecidableEq, Repr, Inhabited\n")
     out.append("/-- `Selected`: source, and its message (`msg` for data streams, `result` for set-power results). -/\n"
                "structure Selected where\n  src : Src\n  msg : Msg\n  result : SpResult\nderiving Repr, Inhabited\n")
-    it = MethodInfo.__new__(MethodInfo)
-    it.cls, it.node, it.pyname, it.lean = "Tracker", run, "_run (one iteration of the select loop)", "Tracker.runIteration"
-    it.params, it.ret, it.mutating, it.body = [("selected", "Selected")], "OptStatus", True, list(loop.body)
-    tr = MethodTr(reg, it, mode="iteration", extra={"sources": sources})
-    body = tr.stmts(it.body, {loop.target.id: (loop.target.id, "Selected")}, "  ")
-    out.append("/-- One iteration of the `select` loop of `BatteryStatusTracker._run`: new state and the status sent, if any. -/\n"
-               f"def Tracker.runIteration (s : Tracker) (now : Int) ({loop.target.id} : Selected) : Tracker × Option Status :=\n"
-               f"  let sent : Option Status := none\n{body}\n")
+    run = find_method(trk_cls, "_run")
+    if not isinstance(run, ast.AsyncFunctionDef):
+        raise Unsupported("_run is not a coroutine")
+    out.append(translate_run_iteration(ctx, run))
 
     # ---- constructor of the tracker
     init = find_method(trk_cls, "__init__")
+    resolve = resolver(init)
     init_status = min_dur = None
     timers = 0
+    streams = set()
     for n in ast.walk(init):
         if isinstance(n, (ast.Assign, ast.AnnAssign)):
             tgt = n.targets[0] if isinstance(n, ast.Assign) else n.target
             src = ast.unparse(tgt)
+            val = resolve(n.value) if n.value is not None else None
             if src == "self._last_status":
-                v = ast.unparse(n.value)
+                v = ast.unparse(val)
                 if not v.startswith("ComponentStatusEnum."):
                     raise Unsupported(f"initial status {v}")
                 init_status = enum_ctor(v.split(".")[1])
             elif src == "self._blocking_status":
-                v = n.value
-                if not (isinstance(v, ast.Call) and ast.unparse(v.func) == "BlockingStatus"):
+                if not (isinstance(val, ast.Call) and ast.unparse(val.func) == "BlockingStatus" and not val.args):
                     raise Unsupported("self._blocking_status")
-                kws = {k.arg: k.value for k in v.keywords}
+                kws = {k.arg: resolve(k.value) for k in val.keywords}
                 if set(kws) != {"min_duration", "max_duration"} or ast.unparse(kws["max_duration"]) != "max_blocking_duration":
-                    raise Unsupported(f"BlockingStatus({ast.unparse(v)})")
+                    raise Unsupported(f"BlockingStatus({ast.unparse(val)})")
                 min_dur = timedelta_us(kws["min_duration"])
-            elif src == "self._max_data_age" and ast.unparse(n.value) != "max_data_age":
+            elif src == "self._max_data_age" and ast.unparse(val) != "max_data_age":
                 raise Unsupported("self._max_data_age")
-        if isinstance(n, ast.Call) and ast.unparse(n.func) == "Timer":
-            if [ast.unparse(a) for a in n.args] != ["max_data_age", "SkipMissedAndDrift()"] or n.keywords:
-                raise Unsupported(f"data timer: {ast.unparse(n)}")
-            timers += 1
-    if init_status is None or min_dur is None or timers != 2:
+            elif src in ("self._battery", "self._inverter"):
+                if not (isinstance(val, ast.Call) and ast.unparse(val.func) == "_ComponentStreamStatus"):
+                    raise Unsupported(src)
+                a = call_args(val, dataclass_fields(stream_cls), src)
+                if set(a) != {"component_id", "data_recv_timer"}:
+                    raise Unsupported(f"{src}: arguments {sorted(a)}")
+                t = resolve(a["data_recv_timer"])
+                if not (isinstance(t, ast.Call) and ast.unparse(t.func) == "Timer"):
+                    raise Unsupported(f"data timer: {ast.unparse(t)}")
+                ta = call_args(t, ["interval", "missed_tick_policy"], "Timer")
+                if set(ta) != {"interval", "missed_tick_policy"} or ast.unparse(resolve(ta["interval"])) != "max_data_age" \
+                        or ast.unparse(resolve(ta["missed_tick_policy"])) != "SkipMissedAndDrift()":
+                    raise Unsupported(f"data timer: {ast.unparse(t)}")
+                cid = ast.unparse(resolve(a["component_id"]))
+                if src == "self._battery" and cid != "component_id":
+                    raise Unsupported(f"battery stream id {cid}")
+                if src == "self._inverter" and "_find_adjacent_inverter_id(component_id)" not in cid:
+                    raise Unsupported(f"inverter stream id {cid}")
+                timers += 1
+                streams.add(src)
+    if init_status is None or min_dur is None or timers != 2 or len(streams) != 2:
         raise Unsupported("BatteryStatusTracker.__init__: status / blocking / timers not recognised")
-    stream_cls = find_class(trk_mod, "_ComponentStreamStatus")
+    if sum(1 for n in ast.walk(init) if isinstance(n, ast.Call) and ast.unparse(n.func) == "Timer") != 2:
+        raise Unsupported("BatteryStatusTracker.__init__: timers")
     correct_default = None
     for n in stream_cls.body:
         if isinstance(n, ast.AnnAssign) and isinstance(n.target, ast.Name) and n.target.id == "last_msg_correct":
@@ -1176,61 +1999,41 @@ deriving DecidableEq, Repr
                f"def defaultMaxBlockingDuration : Int := {dflt['max_blocking_duration']}\n")
 
     # ---- pool
-    out.append('''/-- `ComponentPoolStatus` -/
-structure PoolStatus where
-  working : List Nat
-  uncertain : List Nat
-deriving DecidableEq, Repr
-
-/-- `ComponentStatus` -/
-structure CompStatus where
-  componentId : Nat
-  value : Status
-deriving DecidableEq, Repr
-
-/-- The part of `ComponentPoolStatusTracker` that `_update_status` touches. -/
-structure Pool where
-  currentStatus : PoolStatus
-deriving DecidableEq, Repr
-''')
-    for key in list(reg.methods):
-        if key[0] in ("PoolStatus", "Pool"):
-            emit(key)
-    ploops = [n for n in upd.body if isinstance(n, ast.AsyncFor)]
-    if len(ploops) != 1 or len([s for s in upd.body if not is_logging(s)]) != 1:
-        raise Unsupported("_update_status: expected a single `async for`")
-    pl = ploops[0]
-    if not (isinstance(pl.target, ast.Name) and ast.unparse(pl.iter) == "self._merged_status_receiver"):
-        raise Unsupported("_update_status loop header")
-    pit = MethodInfo.__new__(MethodInfo)
-    pit.cls, pit.node, pit.pyname, pit.lean = "Pool", upd, "_update_status (loop body)", "Pool.updateStatus"
-    pit.params, pit.ret, pit.mutating, pit.body = [(pl.target.id, "CompStatus")], "OptPoolStatus", True, list(pl.body)
-    ptr = MethodTr(reg, pit, mode="poolloop")
-    pbody = ptr.stmts(pit.body, {pl.target.id: (pl.target.id, "CompStatus")}, "  ")
-    out.append("/-- One iteration of the loop of `ComponentPoolStatusTracker._update_status`: new state, pool status sent. -/\n"
-               f"def Pool.updateStatus (s : Pool) (now : Int) ({pl.target.id} : CompStatus) : Pool × Option PoolStatus :=\n"
-               f"  let sent : Option PoolStatus := none\n{pbody}\n")
+    out.append(POOL_STRUCT_TEXT)
+    out.append(translate_method(ctx, ("PoolStatus", "get_working_components")))
+    upd = find_method(pool_cls, "_update_status")
+    if not isinstance(upd, ast.AsyncFunctionDef):
+        raise Unsupported("_update_status is not a coroutine")
+    out.append(translate_pool_update(ctx, upd))
     # initial pool status and the delegating accessor
     pinit = find_method(pool_cls, "__init__")
-    ok = any(isinstance(n, ast.Assign) and ast.unparse(n.targets[0]) == "self._current_status"
-             and ast.unparse(n.value).replace(" ", "") == "ComponentPoolStatus(working=set(),uncertain=set())"
-             for n in ast.walk(pinit))
+    presolve = resolver(pinit)
+    ok = False
+    for n in ast.walk(pinit):
+        if isinstance(n, (ast.Assign, ast.AnnAssign)) and n.value is not None \
+                and ast.unparse(n.targets[0] if isinstance(n, ast.Assign) else n.target) == "self._current_status":
+            v = presolve(n.value)
+            if isinstance(v, ast.Call) and ast.unparse(v.func) == "ComponentPoolStatus":
+                a = call_args(v, dataclass_fields(ps_cls), "ComponentPoolStatus")
+                ok = set(a) == {"working", "uncertain"} and all(ast.unparse(presolve(x)) == "set()" for x in a.values())
     if not ok:
         raise Unsupported("ComponentPoolStatusTracker.__init__: initial status")
     gw = find_method(pool_cls, "get_working_components")
-    rets = [n for n in gw.body if isinstance(n, ast.Return)]
-    if len(rets) != 1 or ast.unparse(rets[0].value) != "self._current_status.get_working_components(components)":
+
+    def run_gw(ex: Exec):
+        v = ex.inline(gw, Ref((), "Pool"), [T("var", "SetNat", "components")], {}, "Pool")
+        return ret_term(ex, v, "SetNat", "get_working_components")
+    gpaths = explore(ctx, "Pool", "method", run_gw)
+    if len(gpaths) != 1 or gpaths[0].state.key != "s" \
+            or gpaths[0].ret.key != "(PoolStatus.getWorkingComponents s.currentStatus now components)":
         raise Unsupported("ComponentPoolStatusTracker.get_working_components")
     out.append("def Pool.new : Pool := { currentStatus := { working := [], uncertain := [] } }\n"
                "/-- `ComponentPoolStatusTracker.get_working_components` -/\n"
                "def Pool.getWorkingComponents (s : Pool) (components : List Nat) : List Nat :=\n"
                "  PoolStatus.getWorkingComponents s.currentStatus 0 components\n")
-    helpers = [reg.methods[k].lean for k in emitted if k not in reg.contract and not reg.methods[k].param_mut]
-    out.append("/-- Unfolds the translated helper functions (everything the entry points call that is not itself an entry\n"
-               "point the lemmas are stated about), whatever helpers the current source happens to have. -/\n"
-               "macro \"c16_unfold_helpers\" : tactic =>\n  `(tactic| try simp only ["
-               + ", ".join(helpers + ["optCmp"]) + "])\n")
-    out.append("macro \"c16_unfold_helpers_at\" h:ident : tactic =>\n  `(tactic| try simp only ["
-               + ", ".join(helpers + ["optCmp"]) + "] at $h:ident)\n")
+    out.append("/-- Unfolds the library helpers of this file.  (Private helpers of the Python source are inlined by the\n"
+               "translator, so there is nothing source-specific to unfold.) -/\n"
+               "macro \"c16_unfold_helpers\" : tactic =>\n  `(tactic| try simp only [optCmp])\n")
+    out.append("macro \"c16_unfold_helpers_at\" h:ident : tactic =>\n  `(tactic| try simp only [optCmp] at $h:ident)\n")
     out.append("end Extracted.BatteryStatus")
     return "\n".join(out)
